@@ -12,6 +12,11 @@ in /repo (09cb6723e, abadd9f3f, 603b8b3fe); their former counterexample theorems
 Gen/TransformKernels.lean (or the correspondence) and re-opens these proofs.
 -/
 import EzdxfVerif.Lemmas.Transform
+import EzdxfVerif.Lemmas.TransformSeq
+import EzdxfVerif.Lemmas.TransformIns
+import EzdxfVerif.Lemmas.TransformHatch
+import EzdxfVerif.Lemmas.TransformText
+import EzdxfVerif.Lemmas.TransformRytz
 
 namespace EzdxfVerif.Props.C12
 open EzdxfVerif.Rat3 EzdxfVerif.Transform EzdxfVerif.Gen
@@ -475,6 +480,25 @@ theorem lwpolyline_vertices (sqrt : Rat → Rat) (o : OcsT) (p p' : LwPolyline) 
       | nil => rfl
       | cons v r ih => simpa [List.zipWith] using ih
 
+/-- width_scale: LWPOLYLINE start / end / constant widths (`transform_width`) under a similarity of the entity plane: the new
+    width is the old one scaled by the similarity factor, (width')² = k²·width² (widths of at most 1e-12 become 0; a negative
+    width is stored by its absolute value) -/
+theorem width_scale (sqrt : Rat → Rat) (o : OcsT) (k2 : Rat) (w : Rat) (hp : PlaneSimilar o k2)
+    (hs : sqrt (k2 * (pyAbs w * pyAbs w)) * sqrt (k2 * (pyAbs w * pyAbs w)) = k2 * (pyAbs w * pyAbs w)) :
+    o.width sqrt w * o.width sqrt w
+      = if (4951760157141521 : Rat) / 4951760157141521099596496896 < pyAbs w then k2 * (w * w) else 0 := by
+  obtain ⟨hxx, hyy, hxy, _, _⟩ := hp
+  rw [width_spec]
+  have ra : magSq (applyDir o.m (o.old.toWcs ⟨pyAbs w, 0, 0⟩)) = k2 * (pyAbs w * pyAbs w) := by
+    rw [magSq_plane_image, hxx, hyy, hxy]; ring
+  have rb : magSq (applyDir o.m (o.old.toWcs ⟨0, pyAbs w, 0⟩)) = k2 * (pyAbs w * pyAbs w) := by
+    rw [magSq_plane_image, hxx, hyy, hxy]; ring
+  have habs : pyAbs w * pyAbs w = w * w := by unfold pyAbs; split_ifs <;> ring
+  split_ifs with hw
+  · simp only [ra, rb, lt_irrefl, if_false]
+    rw [hs, habs]
+  · simp
+
 /-! ## 6. INSERT -/
 
 /-- `Insert.transform`: whenever it succeeds, the insertion point and the rotation direction obey the OCS laws: the new
@@ -514,6 +538,132 @@ theorem insert_matrix_law (old new : Ocs) (m : M44) (i i' : Ins) (base : V3)
   · linear_combination (p.x - base.x) * hx1 + (p.y - base.y) * hy1 + (p.z - base.z) * hz1 + hi1
   · linear_combination (p.x - base.x) * hx2 + (p.y - base.y) * hy2 + (p.z - base.z) * hz2 + hi2
   · linear_combination (p.x - base.x) * hx3 + (p.y - base.y) * hy3 + (p.z - base.z) * hz3 + hi3
+
+/-! ### insert_transform_law at full generality (session 3)
+
+`X = insX old m i`, `Y = insY old m i`, `Z = insZ old m` are the images under `m` of the block reference's own x-, y- and
+z-axis (the OCS axes turned by the rotation (c, s) of the reference).  An INSERT can represent `m ∘ (old reference)` exactly when
+these three vectors are mutually orthogonal; `InsertCoordinateSystem.transform` (regenerated kernel `icsScales`) then measures
+|X|·sx, ±|Y|·sy, |Z|·sz and the model's `Ins.transform` returns a reference whose matrix44 is matrix44(old)·m. -/
+
+/-- insert_transform_law: for EVERY matrix `m`, every old OCS, every rotation direction (c, s) (no normalisation needed), every
+    scale factors and every base point: if the images X, Y, Z of the reference's axes are non-null and mutually orthogonal
+    (similarities, mirrors, and any non-uniform scaling along the reference's own axes), `Ins.transform` SUCCEEDS for every
+    tolerance 0 ≤ tol < 1 and the new block-reference matrix is the old one followed by `m`, point for point.
+    `new` is the OCS of the new extrusion Z/|Z| (orthonormal, right-handed: `OCS.__init__`, property C11); the square root is
+    only assumed correct (r·r = q, r > 0) on the three radicands the code evaluates. -/
+theorem insert_transform_law (sqrt : Rat → Rat) (old new : Ocs) (m : M44) (i : Ins) (tol : Rat)
+    (hn : new.Orthonormal) (hrh : new.RightHanded)
+    (hs1 : sqrt (magSq (insX old m i)) * sqrt (magSq (insX old m i)) = magSq (insX old m i)) (hp1 : 0 < sqrt (magSq (insX old m i)))
+    (hs2 : sqrt (magSq (insY old m i)) * sqrt (magSq (insY old m i)) = magSq (insY old m i)) (hp2 : 0 < sqrt (magSq (insY old m i)))
+    (hp3 : 0 < sqrt (magSq (insZ old m)))
+    (hxy : V3.dot (insX old m i) (insY old m i) = 0) (hxz : V3.dot (insX old m i) (insZ old m) = 0)
+    (hyz : V3.dot (insY old m i) (insZ old m) = 0) (ht0 : 0 ≤ tol) (ht1 : tol < 1)
+    (hnew : new.uz = nrm (sqrt (magSq (insZ old m))) (insZ old m)) :
+    ∃ i', Ins.transform sqrt old new m i tol = .ok i' ∧
+      (∀ base p, apply (insertMatrix new (i'.unitRot sqrt) base) p = apply m (apply (insertMatrix old i base) p)) ∧
+      i'.sx = sqrt (magSq (insX old m i)) * i.sx ∧
+      (i'.sy = sqrt (magSq (insY old m i)) * i.sy ∨ i'.sy = -(sqrt (magSq (insY old m i)) * i.sy)) ∧
+      i'.sz = sqrt (magSq (insZ old m)) * i.sz := by
+  obtain ⟨i', h, hx, hy, hz, hins, s1, s2, s3⟩ :=
+    ins_transform_axes sqrt old new m i tol hn hrh hs1 hp1 hs2 hp2 hp3 hxy hxz hyz ht0 ht1 hnew
+  exact ⟨i', h, fun base p => (insert_matrix_law old new m i (i'.unitRot sqrt) base hx hy hz hins p).1, s1, s2, s3⟩
+
+/-- minsert_grid_law (fix 1240d5ce0 at full generality): under the hypotheses of `insert_transform_law` and for non-zero x / y
+    scale, the column step and the row step of a MINSERT grid — spacing times the unit x- / y-axis of the reference — are mapped
+    by the linear part of `m`: new spacing · new axis = m(old spacing · old axis), mirrored matrices included (the row spacing
+    changes sign with the y scale) -/
+theorem minsert_grid_law (sqrt : Rat → Rat) (old new : Ocs) (m : M44) (i : Ins) (tol cs rs : Rat)
+    (hn : new.Orthonormal) (hrh : new.RightHanded)
+    (hs1 : sqrt (magSq (insX old m i)) * sqrt (magSq (insX old m i)) = magSq (insX old m i)) (hp1 : 0 < sqrt (magSq (insX old m i)))
+    (hs2 : sqrt (magSq (insY old m i)) * sqrt (magSq (insY old m i)) = magSq (insY old m i)) (hp2 : 0 < sqrt (magSq (insY old m i)))
+    (hp3 : 0 < sqrt (magSq (insZ old m)))
+    (hxy : V3.dot (insX old m i) (insY old m i) = 0) (hxz : V3.dot (insX old m i) (insZ old m) = 0)
+    (hyz : V3.dot (insY old m i) (insZ old m) = 0) (ht0 : 0 ≤ tol) (ht1 : tol < 1)
+    (hnew : new.uz = nrm (sqrt (magSq (insZ old m))) (insZ old m)) (hsx : i.sx ≠ 0) (hsy : i.sy ≠ 0) :
+    ∃ i', Ins.transform sqrt old new m i tol = .ok i' ∧
+      V3.smul (minsertSpacing i i' cs rs).1 ((i'.unitRot sqrt).xAxis new) = applyDir m (V3.smul cs (i.xAxis old)) ∧
+      V3.smul (minsertSpacing i i' cs rs).2 ((i'.unitRot sqrt).yAxis new) = applyDir m (V3.smul rs (i.yAxis old)) := by
+  obtain ⟨i', h, hx, hy, _, _, _, _, _⟩ :=
+    ins_transform_axes sqrt old new m i tol hn hrh hs1 hp1 hs2 hp2 hp3 hxy hxz hyz ht0 ht1 hnew
+  refine ⟨i', h, ?_, ?_⟩
+  · rw [(insertMatrix_axes new _).1, (insertMatrix_axes old i).1, applyDir_smul] at hx
+    simp only [minsertSpacing, hsx, if_false, Ins.xAxis, applyDir_smul]
+    have : (i'.unitRot sqrt).sx = i'.sx := rfl
+    rw [this] at hx
+    generalize V3.add (V3.smul (i'.unitRot sqrt).rot.x new.ux) (V3.smul (i'.unitRot sqrt).rot.y new.uy) = A at *
+    generalize applyDir m (V3.add (V3.smul i.rot.x old.ux) (V3.smul i.rot.y old.uy)) = B at *
+    simp only [V3.smul, V3.mk.injEq] at hx ⊢
+    obtain ⟨h1, h2, h3⟩ := hx
+    refine ⟨?_, ?_, ?_⟩ <;> field_simp
+    · linear_combination cs * h1
+    · linear_combination cs * h2
+    · linear_combination cs * h3
+  · rw [(insertMatrix_axes new _).2.1, (insertMatrix_axes old i).2.1, applyDir_smul] at hy
+    simp only [minsertSpacing, hsy, if_false, Ins.yAxis, applyDir_smul]
+    have : (i'.unitRot sqrt).sy = i'.sy := rfl
+    rw [this] at hy
+    generalize V3.add (V3.smul (-(i'.unitRot sqrt).rot.y) new.ux) (V3.smul (i'.unitRot sqrt).rot.x new.uy) = A at *
+    generalize applyDir m (V3.add (V3.smul (-i.rot.y) old.ux) (V3.smul i.rot.x old.uy)) = B at *
+    simp only [V3.smul, V3.mk.injEq] at hy ⊢
+    obtain ⟨h1, h2, h3⟩ := hy
+    refine ⟨?_, ?_, ?_⟩ <;> field_simp
+    · linear_combination rs * h1
+    · linear_combination rs * h2
+    · linear_combination rs * h3
+
+/-- insert_error_iff: `InsertTransformationError` is raised EXACTLY when all three image axes are non-null and the cosine of
+    one of the three angles between them exceeds `tol` in absolute value (the code's test, on the reference's own axes) -/
+theorem insert_error_iff (sqrt : Rat → Rat) (old new : Ocs) (m : M44) (i : Ins) (tol : Rat) :
+    Ins.transform sqrt old new m i tol = .error .insertTransformation ↔
+      (sqrt (magSq (insX old m i)) ≠ 0 ∧ sqrt (magSq (insY old m i)) ≠ 0 ∧ sqrt (magSq (insZ old m)) ≠ 0 ∧
+       ((tol < pyAbs (cosOf sqrt (insX old m i) (insZ old m)) ∨ tol < pyAbs (cosOf sqrt (insX old m i) (insY old m i))) ∨
+        tol < pyAbs (cosOf sqrt (insZ old m) (insY old m i)))) :=
+  ins_error_iff sqrt old new m i tol
+
+/-- with an exact test (tol = 0) the error is raised exactly OUTSIDE the representable set: some pair of image axes is not
+    orthogonal (for non-null axes) -/
+theorem insert_error_exact (sqrt : Rat → Rat) (old new : Ocs) (m : M44) (i : Ins)
+    (h1 : sqrt (magSq (insX old m i)) ≠ 0) (h2 : sqrt (magSq (insY old m i)) ≠ 0) (h3 : sqrt (magSq (insZ old m)) ≠ 0) :
+    Ins.transform sqrt old new m i 0 = .error .insertTransformation ↔
+      ¬ (V3.dot (insX old m i) (insZ old m) = 0 ∧ V3.dot (insX old m i) (insY old m i) = 0 ∧
+         V3.dot (insZ old m) (insY old m i) = 0) := by
+  rw [ins_error_iff]
+  have hpos : ∀ x : Rat, 0 < pyAbs x ↔ x ≠ 0 := by
+    intro x; unfold pyAbs; split_ifs with h
+    · exact ⟨fun hx => ne_of_gt hx, fun hx => lt_of_le_of_ne h (Ne.symm hx)⟩
+    · exact ⟨fun _ => by intro h0; rw [h0] at h; exact h (le_refl 0), fun _ => by linarith⟩
+  have hcos : ∀ u v : V3, sqrt (magSq u) ≠ 0 → sqrt (magSq v) ≠ 0 → (cosOf sqrt u v ≠ 0 ↔ V3.dot u v ≠ 0) := by
+    intro u v hu hv
+    unfold cosOf
+    constructor
+    · intro h h0; rw [h0] at h; simp at h
+    · intro h; exact mul_ne_zero (mul_ne_zero h (one_div_ne_zero hu)) (one_div_ne_zero hv)
+  simp only [h1, h2, h3, ne_eq, not_false_eq_true, true_and, hpos, hcos _ _ h1 h3, hcos _ _ h1 h2, hcos _ _ h3 h2]
+  tauto
+
+/-- necessity: if SOME block reference (orthonormal OCS, any rotation direction and scale factors) has the images of the old
+    scaled axes as its scaled axes, then these images are mutually orthogonal: outside the orthogonal case no INSERT
+    represents the transformed reference, so raising is the only correct answer -/
+theorem insert_representable_only_if (old new : Ocs) (m : M44) (i i' : Ins) (hn : new.Orthonormal)
+    (hx : (insertMatrix new i' ⟨0, 0, 0⟩).ux = applyDir m (insertMatrix old i ⟨0, 0, 0⟩).ux)
+    (hy : (insertMatrix new i' ⟨0, 0, 0⟩).uy = applyDir m (insertMatrix old i ⟨0, 0, 0⟩).uy)
+    (hz : (insertMatrix new i' ⟨0, 0, 0⟩).uz = applyDir m (insertMatrix old i ⟨0, 0, 0⟩).uz)
+    (hsx : i.sx ≠ 0) (hsy : i.sy ≠ 0) (hsz : i.sz ≠ 0) :
+    V3.dot (insX old m i) (insY old m i) = 0 ∧ V3.dot (insX old m i) (insZ old m) = 0 ∧
+    V3.dot (insY old m i) (insZ old m) = 0 := by
+  obtain ⟨oxy, oxz, oyz⟩ := insertMatrix_orthogonal new hn i'
+  obtain ⟨o1, o2, o3⟩ := old_axes_image old m i
+  rw [hx, hy, o1, o2] at oxy
+  rw [hx, hz, o1, o3] at oxz
+  rw [hy, hz, o2, o3] at oyz
+  have e : ∀ (k l : Rat) (u v : V3), V3.dot (V3.smul k u) (V3.smul l v) = k * l * V3.dot u v := by
+    intro k l u v; simp only [V3.dot, V3.smul]; ring
+  rw [e] at oxy oxz oyz
+  refine ⟨?_, ?_, ?_⟩
+  · exact (mul_eq_zero.mp oxy).resolve_left (mul_ne_zero hsx hsy)
+  · exact (mul_eq_zero.mp oxz).resolve_left (mul_ne_zero hsx hsz)
+  · exact (mul_eq_zero.mp oyz).resolve_left (mul_ne_zero hsy hsz)
 
 /-- a tilted orthonormal right-handed OCS: extrusion (-2/3, 2/3, -1/3) -/
 def tilt : Ocs := ⟨true, ⟨1/3, 2/3, 2/3, 0, 2/3, 1/3, -2/3, 0, -2/3, 2/3, -1/3, 0, 0, 0, 0, 1⟩⟩
@@ -652,6 +802,866 @@ theorem upright_insert (i : Ins) (base : V3) : insertMatrix Ocs.std i.upright ba
     TransformKernels.ocsToWcs, V3.add, V3.sub, V3.smul, if_true, Bool.false_eq_true, if_false, M44.mk.injEq]
   refine ⟨?_, ?_, ?_, ?_, ?_, ?_, ?_, ?_, ?_, ?_, ?_, ?_, ?_, ?_, ?_, ?_⟩ <;> first | trivial | ring
 
+/-! ## 9. histories: successive transformations of one entity (session 3) -/
+
+/-- temp_transform_law: ACIS entities (BODY, 3DSOLID, REGION, SURFACE ...) cannot transform their SAT/SAB data, `transform(m)`
+    accumulates a matrix (`TemporaryTransformation.add_matrix`, regenerated) which becomes the block-reference matrix at export.
+    For EVERY history m₁, m₂, …, mₙ (n ≥ 1, affine matrices) the accumulated matrix exists, is affine, and maps every point
+    exactly as the history applied step by step maps it: world geometry = mₙ(…m₂(m₁(p))…) — the order matters. -/
+theorem temp_transform_law (m : M44) (ms : List M44) (hm : M44.IsAffine m) (hms : AllAffine ms) :
+    ∃ acc, tempRun none (m :: ms) = some acc ∧ M44.IsAffine acc ∧ ∀ p, apply acc p = applySeq (m :: ms) p := by
+  have h0 : tempRun none (m :: ms) = tempRun (some m) ms := by
+    simp [tempRun, tempAdd, TransformKernels.tempAddNone]
+  obtain ⟨acc, h1, h2, h3⟩ := tempRun_some m hm ms hms
+  exact ⟨acc, h0 ▸ h1, h2, fun p => by rw [h3 p]; rfl⟩
+
+/-- an empty history leaves "no pending transformation" (nothing is exported as a block reference) -/
+theorem temp_empty : tempRun none [] = none := rfl
+
+/-- the order of a history matters and the model keeps it: rotate by 90° about z then translate by (10, 0, 0) sends
+    (1, 0, 0) to (10, 1, 0); the other order to (0, 11, 0) -/
+theorem temp_order_example :
+    (tempRun none [⟨0, 1, 0, 0, -1, 0, 0, 0, 0, 0, 1, 0, 0, 0, 0, 1⟩, ⟨1, 0, 0, 0, 0, 1, 0, 0, 0, 0, 1, 0, 10, 0, 0, 1⟩]).map (fun a => apply a ⟨1, 0, 0⟩)
+      = some ⟨10, 1, 0⟩ ∧
+    (tempRun none [⟨1, 0, 0, 0, 0, 1, 0, 0, 0, 0, 1, 0, 10, 0, 0, 1⟩, ⟨0, 1, 0, 0, -1, 0, 0, 0, 0, 0, 1, 0, 0, 0, 0, 1⟩]).map (fun a => apply a ⟨1, 0, 0⟩)
+      = some ⟨0, 11, 0⟩ := by
+  decide +kernel
+
+/-- WCS entities: two successive `transform` calls act as the product matrix (first m₁, then m₂) -/
+theorem linear_compose (m1 m2 : M44) (h1 : M44.IsAffine m1) (ps : List V3) :
+    transformPoints m2 (transformPoints m1 ps) = transformPoints (M44.mul m1 m2) ps := by
+  simp only [transformPoints, List.map_map]
+  apply List.map_congr_left
+  intro p _
+  simp [apply_mul m1 m2 h1]
+
+/-- OCS entities: two successive OCS transformations (old → mid by m₁, mid → new by m₂; both target frames orthonormal, as
+    `OCS.__init__` builds them) denote the composed map: the final OCS point is m₂(m₁(WCS position of the original)) -/
+theorem ocs_compose (o1 o2 : OcsT) (hmid : o2.old = o1.new) (h1 : o1.new.Orthonormal) (h2 : o2.new.Orthonormal) (p : V3) :
+    o2.new.toWcs (o2.vertex (o1.vertex p)) = apply o2.m (apply o1.m (o1.old.toWcs p)) := by
+  rw [(ocs_vertex_law o2 h2 _).1, hmid, (ocs_vertex_law o1 h1 p).1]
+
+/-! ## 10. HATCH / MPOLYGON boundary paths (session 3)
+
+`PlaneToPlane o`: both image axes are perpendicular to the new extrusion — what `transform_extrusion` establishes for EVERY
+matrix (`extrusion_law`), so the laws below hold for every invertible `m`: non-uniform scaling, tilted extrusion, elevation ≠ 0. -/
+
+/-- hatch_vertex_law: one boundary point.  (x', y') = transform_2d_vertex((x, y), elevation) lifted with the NEW elevation
+    (z of the transformed point (0, 0, elevation)) is `m` applied to the old point lifted with the old elevation. -/
+theorem hatch_vertex_law (o : OcsT) (hn : o.new.Orthonormal) (hp : PlaneToPlane o) (v : V2) (e : Rat) :
+    hatchPoint o.new (o.vertex ⟨0, 0, e⟩).z (o.vertex2d v e) = apply o.m (hatchPoint o.old e v) ∧
+    (∀ x y, (o.vertex ⟨x, y, e⟩).z = (o.vertex ⟨0, 0, e⟩).z) :=
+  ⟨hatch_point_law o hn hp v e, fun x y => vertex_z_const o hp x y e⟩
+
+/-- hatch_law: whenever `DXFPolygon.transform` needs no arc → ellipse conversion (the model answers `some`), EVERY stored
+    boundary point of EVERY path (polyline vertices, line edge end points, arc and ellipse edge centres, spline edge control
+    and fit points; any number of paths and edges) lifted from the new OCS with the new elevation is `m` applied to the
+    corresponding old point lifted from the old OCS with the old elevation; spline edge tangents are mapped as directions
+    (no elevation: fix 4b0c973a6); bulge values and the path structure are kept. -/
+theorem hatch_law (sqrt : Rat → Rat) (o : OcsT) (h h' : Hatch) (hn : o.new.Orthonormal) (hp : PlaneToPlane o)
+    (ht : Hatch.transform sqrt o h = some h') :
+    h'.points.map (hatchPoint o.new h'.elevation) = h.points.map (fun v => apply o.m (hatchPoint o.old h.elevation v)) ∧
+    h'.tangents.map (fun t => o.new.toWcs ⟨t.x, t.y, 0⟩) = h.tangents.map (fun t => applyDir o.m (o.old.toWcs ⟨t.x, t.y, 0⟩)) ∧
+    h'.bulges = h.bulges ∧ h'.paths.length = h.paths.length ∧
+    h'.elevation = (o.vertex ⟨0, 0, h.elevation⟩).z := by
+  unfold Hatch.transform at ht
+  split at ht
+  · cases ht
+  · cases ht
+    simp only [TransformKernels.hatchPathElev, TransformKernels.hatchPathsElev, TransformKernels.hatchNewElevationZ]
+    refine ⟨?_, ?_, ?_, by simp, by first | rfl | trivial⟩
+    · simp only [Hatch.points, List.flatMap_map, List.map_flatMap, BPath.points_transform, List.map_map]
+      congr 1
+      funext p
+      apply List.map_congr_left
+      intro v _
+      exact hatch_point_law o hn hp v h.elevation
+    · simp only [Hatch.tangents, List.flatMap_map, List.map_flatMap, BPath.tangents_transform, List.map_map]
+      congr 1
+      funext p
+      apply List.map_congr_left
+      intro t _
+      exact hatch_direction_law o hn hp t
+    · simp only [Hatch.bulges, List.flatMap_map, BPath.bulges_transform]
+
+/-- the model (and the code without conversion) is defined exactly when the scaling of the OCS plane is uniform or no path
+    holds an arc (bulge / arc edge); outside, `BoundaryPaths.transform` first converts arcs to ellipse edges -/
+theorem hatch_defined_iff (sqrt : Rat → Rat) (o : OcsT) (h : Hatch) :
+    (∃ h', Hatch.transform sqrt o h = some h') ↔ (o.uniform = true ∨ h.paths.any BPath.needsConversion = false) := by
+  have := hatch_transform_none_iff sqrt o h
+  cases hh : Hatch.transform sqrt o h with
+  | none => rw [hh] at this; simp only [true_iff] at this; simp [this.1, this.2]
+  | some h' =>
+    rw [hh] at this
+    simp only [reduceCtorEq, false_iff, not_and, Bool.not_eq_true] at this
+    simp only [Option.some.injEq, exists_eq', true_iff]
+    cases hu : o.uniform
+    · right; exact this hu
+    · left; rfl
+
+/-- arc edges are transformed as circles: centre, radius and angle directions of the new arc edge are those of
+    `Circle.transform` / `dir2` on the circle lifted to the elevation, so `radius_scale` and `arc_orientation_preserved` apply;
+    the ccw flag and "full circle" are kept, a full circle keeps start = end -/
+theorem hatch_arc_law (sqrt : Rat → Rat) (o : OcsT) (e : Rat) (c : V2) (r : Rat) (s t : V2) (full ccw : Bool) (hu : o.uniform = true) :
+    ∃ c' r' s' t', HEdge.transform sqrt o e (.arc c r s t full ccw) = .arc c' r' s' t' full ccw ∧
+      Circle.transform sqrt o ⟨⟨c.x, c.y, e⟩, r, none⟩ = .ok ⟨⟨c'.x, c'.y, (o.vertex ⟨c.x, c.y, e⟩).z⟩, r', none⟩ ∧
+      s' = dir2 o s ∧ t' = (if full then dir2 o s else dir2 o t) := by
+  refine ⟨_, _, _, _, rfl, ?_, rfl, rfl⟩
+  simp [Circle.transform, hu, TransformKernels.hatchArcCenterElev, vertex2d_spec]
+
+/-- for a similarity of the OCS plane (mirrored ones included) the planar map old OCS → new OCS is CONFORMAL and orientation
+    preserving: the image of ŷ is the image of x̂ turned by +90°, hence every direction turned by +90° is mapped to the image
+    turned by +90° -/
+private theorem plane_conformal (o : OcsT) (k2 r : Rat) (hn : o.new.Orthonormal) (hrh : o.new.RightHanded) (hp : PlaneSimilar o k2)
+    (hr : 0 < r) (hnr : V3.smul r o.new.uz = V3.cross o.ax o.ay) :
+    (o.direction ⟨0, 1, 0⟩).x = -(o.direction ⟨1, 0, 0⟩).y ∧ (o.direction ⟨0, 1, 0⟩).y = (o.direction ⟨1, 0, 0⟩).x ∧
+    ∀ d : V2, dir2 o (rot90 d) = rot90 (dir2 o d) := by
+  obtain ⟨hdet, hk⟩ := planeDet_similar o k2 r hn hrh hp hr hnr
+  have h11 := dir2_dot o k2 hn hp ⟨1, 0⟩ ⟨1, 0⟩
+  have h22 := dir2_dot o k2 hn hp ⟨0, 1⟩ ⟨0, 1⟩
+  simp only [dir2, dot2, OcsT.planeDet] at h11 h22 hdet
+  have hsq : ((o.direction ⟨0, 1, 0⟩).x + (o.direction ⟨1, 0, 0⟩).y) * ((o.direction ⟨0, 1, 0⟩).x + (o.direction ⟨1, 0, 0⟩).y)
+      + ((o.direction ⟨0, 1, 0⟩).y - (o.direction ⟨1, 0, 0⟩).x) * ((o.direction ⟨0, 1, 0⟩).y - (o.direction ⟨1, 0, 0⟩).x) = 0 := by
+    linear_combination h11 + h22 - 2 * hdet
+  have s1 := mul_self_nonneg ((o.direction ⟨0, 1, 0⟩).x + (o.direction ⟨1, 0, 0⟩).y)
+  have s2 := mul_self_nonneg ((o.direction ⟨0, 1, 0⟩).y - (o.direction ⟨1, 0, 0⟩).x)
+  have hA : (o.direction ⟨0, 1, 0⟩).x + (o.direction ⟨1, 0, 0⟩).y = 0 := mul_self_eq_zero.mp (by linarith)
+  have hB : (o.direction ⟨0, 1, 0⟩).y - (o.direction ⟨1, 0, 0⟩).x = 0 := mul_self_eq_zero.mp (by linarith)
+  have e1 : (o.direction ⟨0, 1, 0⟩).x = -(o.direction ⟨1, 0, 0⟩).y := by linarith
+  have e2 : (o.direction ⟨0, 1, 0⟩).y = (o.direction ⟨1, 0, 0⟩).x := by linarith
+  refine ⟨e1, e2, ?_⟩
+  intro d
+  rw [dir2_lin, dir2_lin]
+  simp only [rot90, e1, e2, V2.mk.injEq]
+  constructor <;> ring
+
+/-- bulge_apex_law: polyline paths (HATCH), LWPOLYLINE and 2-D POLYLINE keep their bulge values under `transform`; this is
+    right because for every similarity of the OCS plane — MIRRORED ones included, the new extrusion being the normalised
+    m x̂ × m ŷ — the planar map old OCS → new OCS is an orientation PRESERVING similarity: the apex of the arc through the new
+    end points with the OLD bulge is the image of the old apex, so the whole arc is the image arc. -/
+theorem bulge_apex_law (o : OcsT) (k2 r : Rat) (hn : o.new.Orthonormal) (hrh : o.new.RightHanded) (hp : PlaneSimilar o k2)
+    (hr : 0 < r) (hnr : V3.smul r o.new.uz = V3.cross o.ax o.ay) (p1 p2 : V2) (β e : Rat) :
+    bulgeApex (o.vertex2d p1 e) (o.vertex2d p2 e) β = o.vertex2d (bulgeApex p1 p2 β) e ∧
+    hatchPoint o.new (o.vertex ⟨0, 0, e⟩).z (bulgeApex (o.vertex2d p1 e) (o.vertex2d p2 e) β)
+      = apply o.m (hatchPoint o.old e (bulgeApex p1 p2 β)) := by
+  obtain ⟨e1, e2, _⟩ := plane_conformal o k2 r hn hrh hp hr hnr
+  have key : bulgeApex (o.vertex2d p1 e) (o.vertex2d p2 e) β = o.vertex2d (bulgeApex p1 p2 β) e := by
+    rw [vertex2d_affine o p1, vertex2d_affine o p2, vertex2d_affine o (bulgeApex p1 p2 β)]
+    simp only [bulgeApex, e1, e2, V2.mk.injEq]
+    constructor <;> ring
+  refine ⟨key, ?_⟩
+  rw [key]
+  exact hatch_point_law o hn ⟨hp.2.2.2.1, hp.2.2.2.2⟩ _ e
+
+/-! ## 11. TEXT / ATTRIB / ATTDEF and MTEXT (session 3) -/
+
+/-- text_law, part 1 (EVERY matrix, both branches of `Text.transform`): insert and align point are mapped as points
+    (an absent align point is stored as the image of the insert), the rotation is the transformed baseline direction — lifted
+    to WCS it is exactly `m` applied to the old baseline direction — and the thickness goes through `transform_thickness`
+    (`ocs_thickness_law`) -/
+theorem text_law (sqrt : Rat → Rat) (o : OcsT) (t t' : Txt) (hn : o.new.Orthonormal) (hp : PlaneToPlane o)
+    (h : Txt.transform sqrt o t = .ok t') :
+    o.new.toWcs t'.insert = apply o.m (o.old.toWcs t.insert) ∧
+    (∃ al, t'.align = some al ∧ o.new.toWcs al = apply o.m (o.old.toWcs (t.align.getD t.insert))) ∧
+    o.new.toWcs ⟨t'.rot.x, t'.rot.y, 0⟩ = applyDir o.m (o.old.toWcs ⟨t.rot.x, t.rot.y, 0⟩) ∧
+    t'.thickness = t.thickness.map o.thickness := by
+  obtain ⟨e1, e2, e3, e4⟩ := txt_transform_common sqrt o t t' h
+  refine ⟨?_, ⟨_, e2, ?_⟩, ?_, e4⟩
+  · rw [e1]; exact (ocs_vertex_law o hn _).1
+  · exact (ocs_vertex_law o hn _).1
+  · rw [e3]; exact hatch_direction_law o hn hp t.rot
+
+/-- text_law, part 2 (similarities of the text plane, mirrored ones included; unit rotation direction): the height is scaled
+    by the similarity factor (height'² = k²·height²), the relative width factor and the oblique angle are unchanged, and the
+    text is NOT mirrored within its plane: the up direction (baseline turned by +90°) is mapped to the new baseline turned by
+    +90° in the new OCS — a mirrored matrix flips the extrusion instead.  `sqrt` is only assumed correct on the radicand k². -/
+theorem text_similarity_law (sqrt : Rat → Rat) (o : OcsT) (k2 r : Rat) (t t' : Txt) (hn : o.new.Orthonormal) (hrh : o.new.RightHanded)
+    (hp : PlaneSimilar o k2) (hr : 0 < r) (hnr : V3.smul r o.new.uz = V3.cross o.ax o.ay) (hu : o.uniform = true)
+    (hd : t.rot.x * t.rot.x + t.rot.y * t.rot.y = 1) (hs : sqrt k2 * sqrt k2 = k2)
+    (h : Txt.transform sqrt o t = .ok t') :
+    t'.height * t'.height = k2 * (t.height * t.height) ∧ t'.width = t.width ∧ t'.obl = t.obl ∧
+    dir2 o (rot90 t.rot) = rot90 t'.rot := by
+  obtain ⟨_, _, e3, _⟩ := txt_transform_common sqrt o t t' h
+  obtain ⟨h0, eo, eh, ew⟩ := txt_transform_uniform sqrt o t t' hu h
+  obtain ⟨hxx, hyy, hxy, _, _⟩ := hp
+  have rx : magSq (applyDir o.m (o.old.toWcs ⟨t.rot.x, t.rot.y, 0⟩)) = k2 := by
+    rw [magSq_plane_image, hxx, hyy, hxy]; linear_combination k2 * hd
+  have ry : magSq (applyDir o.m (o.old.toWcs ⟨(rot90 t.rot).x, (rot90 t.rot).y, 0⟩)) = k2 := by
+    rw [magSq_plane_image, hxx, hyy, hxy]; simp only [rot90]; linear_combination k2 * hd
+  simp only [length_spec, rx, ry] at h0 eh ew
+  refine ⟨?_, ?_, eo, ?_⟩
+  · rw [eh]; linear_combination (t.height * t.height) * hs
+  · rw [ew, div_self h0, mul_one]
+  · rw [e3]
+    exact (plane_conformal o k2 r hn hrh ⟨hxx, hyy, hxy, ‹_›, ‹_›⟩ hr hnr).2.2 t.rot
+
+/-- text_law, part 3 (NON-uniform branch, every matrix): the new oblique angle ω' = (cos, sin) stored by `Text.transform` is
+    exactly the angle for which the new slant direction — the normal of the new baseline turned by −ω' — is the IMAGE of the old
+    slant direction: n̂'·cos ω' + d̂'·sin ω' = ob' / |ob'| (d' = image of the baseline, n̂' = d̂' turned by +90°, ob' = image of the
+    old slant vector `t.slant`), and cos²ω' + sin²ω' = 1.  `sqrt` is assumed correct on the two radicands |d'|², |ob'|². -/
+theorem text_oblique_law (sqrt : Rat → Rat) (o : OcsT) (t t' : Txt) (hu : o.uniform = false)
+    (hd : sqrt (dot2 (dir2 o t.rot) (dir2 o t.rot)) * sqrt (dot2 (dir2 o t.rot) (dir2 o t.rot)) = dot2 (dir2 o t.rot) (dir2 o t.rot))
+    (ho : sqrt (dot2 (dir2 o t.slant) (dir2 o t.slant)) * sqrt (dot2 (dir2 o t.slant) (dir2 o t.slant)) = dot2 (dir2 o t.slant) (dir2 o t.slant))
+    (h : Txt.transform sqrt o t = .ok t') :
+    (rot90 (dir2 o t.rot)).x / sqrt (dot2 (dir2 o t.rot) (dir2 o t.rot)) * t'.obl.x + (dir2 o t.rot).x / sqrt (dot2 (dir2 o t.rot) (dir2 o t.rot)) * t'.obl.y
+      = (dir2 o t.slant).x / sqrt (dot2 (dir2 o t.slant) (dir2 o t.slant)) ∧
+    (rot90 (dir2 o t.rot)).y / sqrt (dot2 (dir2 o t.rot) (dir2 o t.rot)) * t'.obl.x + (dir2 o t.rot).y / sqrt (dot2 (dir2 o t.rot) (dir2 o t.rot)) * t'.obl.y
+      = (dir2 o t.slant).y / sqrt (dot2 (dir2 o t.slant) (dir2 o t.slant)) ∧
+    t'.obl.x * t'.obl.x + t'.obl.y * t'.obl.y = 1 := by
+  obtain ⟨h0, eo, _, _⟩ := txt_transform_nonuniform sqrt o t t' hu h
+  have key := rot90_decompose (dir2 o t.rot) (dir2 o t.slant)
+  have lag : cross2 (dir2 o t.rot) (dir2 o t.slant) * cross2 (dir2 o t.rot) (dir2 o t.slant)
+      + dot2 (dir2 o t.rot) (dir2 o t.slant) * dot2 (dir2 o t.rot) (dir2 o t.slant)
+      = dot2 (dir2 o t.rot) (dir2 o t.rot) * dot2 (dir2 o t.slant) (dir2 o t.slant) := by
+    simp only [cross2, dot2]; ring
+  rw [eo]
+  simp only [V2.mk.injEq] at key
+  obtain ⟨k1, k2⟩ := key
+  generalize dir2 o t.rot = d' at *
+  generalize dir2 o t.slant = ob' at *
+  rw [← hd] at k1 k2
+  rw [← hd, ← ho] at lag
+  generalize sqrt (dot2 d' d') = rd at *
+  generalize sqrt (dot2 ob' ob') = ro at *
+  have hrd : rd ≠ 0 := left_ne_zero_of_mul h0
+  have hro : ro ≠ 0 := right_ne_zero_of_mul h0
+  generalize cross2 d' ob' = cr at *
+  generalize dot2 d' ob' = dt at *
+  refine ⟨?_, ?_, ?_⟩
+  · field_simp
+    linear_combination k1
+  · field_simp
+    linear_combination k2
+  · field_simp
+    linear_combination lag
+
+/-- text_law, part 4 (NON-uniform branch; fix b560c7405): the new height is the TRUE height of the image of the text frame over
+    its new baseline: height'·|d'| = height·(d' × u') for the images d', u' of the baseline and up direction — the area of the
+    image of the (baseline, height) rectangle = new base × new height — for every matrix that maps the text plane onto the
+    plane of the new OCS and every oblique angle.  (Before the fix the height was multiplied by cos(new oblique) instead, which
+    is too small whenever oblique ≠ 0: TEXT height 1, oblique 30°, Matrix44.scale(1, 2, 1) gave 1.92 instead of 2.) -/
+theorem text_height_law (sqrt : Rat → Rat) (o : OcsT) (t t' : Txt) (hn : o.new.Orthonormal) (hp : PlaneToPlane o)
+    (hu : o.uniform = false)
+    (hd : sqrt (dot2 (dir2 o t.rot) (dir2 o t.rot)) * sqrt (dot2 (dir2 o t.rot) (dir2 o t.rot)) = dot2 (dir2 o t.rot) (dir2 o t.rot))
+    (h : Txt.transform sqrt o t = .ok t') :
+    t'.height * sqrt (dot2 (dir2 o t.rot) (dir2 o t.rot)) = t.height * cross2 (dir2 o t.rot) (dir2 o (rot90 t.rot)) := by
+  obtain ⟨_, _, h1, eh⟩ := txt_transform_nonuniform sqrt o t t' hu h
+  rw [eh, length_spec, ← dir2_length o hn hp (rot90 t.rot)]
+  generalize sqrt (dot2 (dir2 o t.rot) (dir2 o t.rot)) = rd at *
+  generalize sqrt (dot2 (dir2 o (rot90 t.rot)) (dir2 o (rot90 t.rot))) = ru at *
+  have hrd : rd ≠ 0 := left_ne_zero_of_mul h1
+  have hru : ru ≠ 0 := right_ne_zero_of_mul h1
+  field_simp
+
+/-- text_frame_law (NON-uniform branch): the glyph frame of a TEXT — a glyph point (x, y) sits at
+    insert + x·(height·width)·d̂ + y·height·(n̂ + tan ω·d̂) — is mapped by `m`:
+    (a) height'·width' = height·width·|d'|  (the x-extent follows the image of the baseline), and
+    (b) height'·cos ω = height·cos ω'·|ob'|; with `text_oblique_law` (cos ω'·n̂' + sin ω'·d̂' = ob'/|ob'|) this is
+        height'·(n̂' + tan ω'·d̂') = (height / cos ω)·ob' = image of height·(n̂ + tan ω·d̂), the slanted height vector.
+    With `text_law` (insert, baseline) every glyph point of the new TEXT is `m` applied to the old one, for every matrix that maps
+    the text plane onto the plane of the new OCS, every rotation and every oblique angle. -/
+theorem text_frame_law (sqrt : Rat → Rat) (o : OcsT) (t t' : Txt) (hn : o.new.Orthonormal) (hp : PlaneToPlane o)
+    (hu : o.uniform = false)
+    (hd : sqrt (dot2 (dir2 o t.rot) (dir2 o t.rot)) * sqrt (dot2 (dir2 o t.rot) (dir2 o t.rot)) = dot2 (dir2 o t.rot) (dir2 o t.rot))
+    (h : Txt.transform sqrt o t = .ok t') :
+    t'.width * t'.height = t.width * t.height * sqrt (dot2 (dir2 o t.rot) (dir2 o t.rot)) ∧
+    t'.height * t.obl.x = t.height * t'.obl.x * sqrt (dot2 (dir2 o t.slant) (dir2 o t.slant)) := by
+  have hh := text_height_law sqrt o t t' hn hp hu hd h
+  obtain ⟨h0, eo, _, _⟩ := txt_transform_nonuniform sqrt o t t' hu h
+  refine ⟨?_, ?_⟩
+  · rw [txt_transform_nonuniform_width sqrt o t t' hu h, length_spec, ← dir2_length o hn hp t.rot]
+  · rw [eo]
+    simp only
+    have hc : cross2 (dir2 o t.rot) (dir2 o t.slant) = t.obl.x * cross2 (dir2 o t.rot) (dir2 o (rot90 t.rot)) := by
+      rw [dir2_slant]; simp only [cross2]; ring
+    rw [hc]
+    generalize sqrt (dot2 (dir2 o t.rot) (dir2 o t.rot)) = rd at *
+    generalize sqrt (dot2 (dir2 o t.slant) (dir2 o t.slant)) = ro at *
+    have hrd : rd ≠ 0 := left_ne_zero_of_mul h0
+    have hro : ro ≠ 0 := right_ne_zero_of_mul h0
+    field_simp
+    linear_combination t.obl.x * hh
+
+/-- mtext_law (EVERY matrix): insert and text direction of an MTEXT are mapped by `m` (a WCS entity), and the new character
+    height is the true height of the image of the (direction, character-height) rectangle over its new baseline:
+    char_height'² · |T'|² = |T' × H'|² for the image T' of the direction and H' of the height vector (area = base × height),
+    whatever shear or non-uniform scaling `m` contains.  `sqrt` is assumed correct on the three radicands involved. -/
+theorem mtext_law (sqrt : Rat → Rat) (old : Ocs) (m : M44) (t t' : MTxt)
+    (hT : sqrt (magSq (applyDir m t.dir)) * sqrt (magSq (applyDir m t.dir)) = magSq (applyDir m t.dir))
+    (hH : sqrt (magSq (t.heightVec sqrt m)) * sqrt (magSq (t.heightVec sqrt m)) = magSq (t.heightVec sqrt m))
+    (hS : ∀ c : Rat, c * c ≤ 1 → sqrt (1 - c * c) * sqrt (1 - c * c) = 1 - c * c)
+    (h : MTxt.transform sqrt old m t = .ok t') :
+    t'.insert = apply m t.insert ∧ t'.dir = applyDir m t.dir ∧
+    t'.charHeight * t'.charHeight * magSq (applyDir m t.dir) = magSq (V3.cross (applyDir m t.dir) (t.heightVec sqrt m)) := by
+  have key : sqrt (magSq (applyDir m t.dir)) ≠ 0 → sqrt (magSq (t.heightVec sqrt m)) ≠ 0 → ∀ hh : Rat,
+      hh = sqrt (magSq (t.heightVec sqrt m)) * sqrt (1 -
+        clamp1 (V3.dot (V3.smul (1 / sqrt (magSq (applyDir m t.dir))) (applyDir m t.dir)) (V3.smul (1 / sqrt (magSq (t.heightVec sqrt m))) (t.heightVec sqrt m))) *
+        clamp1 (V3.dot (V3.smul (1 / sqrt (magSq (applyDir m t.dir))) (applyDir m t.dir)) (V3.smul (1 / sqrt (magSq (t.heightVec sqrt m))) (t.heightVec sqrt m)))) →
+        hh * hh * magSq (applyDir m t.dir) = magSq (V3.cross (applyDir m t.dir) (t.heightVec sqrt m)) := by
+    intro nT nH hh ehh
+    rw [← lagrange]
+    generalize applyDir m t.dir = T at *
+    generalize t.heightVec sqrt m = H at *
+    generalize sqrt (magSq T) = rT at *
+    generalize sqrt (magSq H) = rH at *
+    have hc0 : V3.dot (V3.smul (1 / rT) T) (V3.smul (1 / rH) H) = V3.dot T H / (rT * rH) := by
+      simp only [V3.dot, V3.smul]; field_simp
+    rw [hc0] at ehh
+    have hpos : 0 < (rT * rH) * (rT * rH) := mul_self_pos.mpr (mul_ne_zero nT nH)
+    have hcs : (V3.dot T H / (rT * rH)) * (V3.dot T H / (rT * rH)) ≤ 1 := by
+      have hl := lagrange T H
+      have hnn := magSq_nonneg' (V3.cross T H)
+      rw [div_mul_div_comm, div_le_one hpos]
+      nlinarith
+    have hlo : ¬ V3.dot T H / (rT * rH) < -1 := by
+      intro hneg; nlinarith
+    have hhi : ¬ 1 < V3.dot T H / (rT * rH) := by
+      intro hgt; nlinarith
+    simp only [clamp1, if_neg hlo, if_neg hhi] at ehh
+    have hsq := hS _ hcs
+    generalize sqrt (1 - V3.dot T H / (rT * rH) * (V3.dot T H / (rT * rH))) = sn at *
+    rw [ehh]
+    have : rH * sn * (rH * sn) * magSq T = rH * rH * (sn * sn) * magSq T := by ring
+    rw [this, hsq, ← hT, ← hH]
+    field_simp
+  unfold MTxt.transform at h
+  split at h
+  · cases h
+  · simp only at h
+    split_ifs at h with h1 h2 h3 <;>
+      (split at h <;>
+        first
+        | (cases h; exact ⟨rfl, rfl, key (fun h0 => h2 (Or.inl h0)) (fun h0 => h2 (Or.inr h0)) _ rfl⟩)
+        | cases h)
+
+/-! ## 12. Rytz's axis construction (session 3): ELLIPSE, arc → ellipse fallback, HATCH ellipse edges
+
+`ConstructionEllipse.transform` maps the two conjugate half-diameters (major axis, minor axis) by `m` and, when the images are
+not orthogonal, rebuilds principal axes with `rytz_axis_construction` — regenerated as `TransformKernels.rytz` (8 square roots
+r1 … r8, each only assumed to satisfy r·r = its radicand). -/
+
+/-- rytz_axes_law (xy-plane branch, the position of every planar drawing): for conjugate half-diameters d1, d2 in the
+    xy-plane the constructed major and minor axis are ORTHOGONAL, stay in the plane, and describe the SAME ellipse:
+    mj mjᵀ + mn mnᵀ = d1 d1ᵀ + d2 d2ᵀ (the point set {cos t·u + sin t·v} depends on u uᵀ + v vᵀ only), and
+    ratio·|major| = |minor|.  Full generality in d1, d2; square roots enter only through r·r = radicand. -/
+theorem rytz_axes_law (d1 d2 : V3) (r1 r2 r3 r4 r5 r6 r7 r8 : Rat) (mj mn : V3) (ratio : Rat) (hz1 : d1.z = 0) (hz2 : d2.z = 0)
+    (h1 : r1 * r1 = TransformKernels.rytz_rad1 d1 d2) (h2 : r2 * r2 = TransformKernels.rytz_rad2 d1 d2 r1)
+    (h3 : r3 * r3 = TransformKernels.rytz_rad3 d1 d2 r1 r2) (h4 : r4 * r4 = TransformKernels.rytz_rad4 d1 d2 r1 r2 r3)
+    (h5 : r5 * r5 = TransformKernels.rytz_rad5 d1 d2 r1 r2 r3 r4) (h6 : r6 * r6 = TransformKernels.rytz_rad6 d1 d2 r1 r2 r3 r4 r5)
+    (hr1 : r1 ≠ 0) (h : TransformKernels.rytz d1 d2 r1 r2 r3 r4 r5 r6 r7 r8 = .ok (mj, mn, ratio)) :
+    V3.dot mj mn = 0 ∧
+    mj.x * mj.x + mn.x * mn.x = d1.x * d1.x + d2.x * d2.x ∧ mj.x * mj.y + mn.x * mn.y = d1.x * d1.y + d2.x * d2.y ∧
+    mj.y * mj.y + mn.y * mn.y = d1.y * d1.y + d2.y * d2.y ∧ mj.z = 0 ∧ mn.z = 0 ∧
+    ratio * r3 = r4 ∧ magSq mj = r3 * r3 ∧ magSq mn = r4 * r4 := by
+  have hflat : Flat d1 d2 := by simp [Flat, hz1, hz2, pyIsclose]
+  rw [rytz_flat d1 d2 r1 r2 r3 r4 r5 r6 r7 r8 hflat] at h
+  obtain ⟨e1, e2, e36⟩ := rytz_rads_flat d1 d2 r1 r2 r3 r4 r5 hflat
+  have hc := h
+  unfold rytzCore at hc
+  split_ifs at hc with c1 c2 c3 c4 c5 c6
+  obtain ⟨e3, e4, e56⟩ := e36 c1 c2
+  obtain ⟨e5, e6⟩ := e56 c3 c4
+  exact rytz_core_law d1 d2 hz1 hz2 r1 r2 r3 r4 r5 r6 mj mn ratio (e1 ▸ h1) (e2 ▸ h2) hr1 (e3 ▸ h3) (e4 ▸ h4) (e5 ▸ h5) (e6 c5 ▸ h6) h
+
+/-- rytz_axes_law_space (general position in space, the branch every tilted ELLIPSE / HATCH ellipse edge takes): the
+    constructed axes are orthogonal and describe the SAME ellipse as the conjugate half-diameters d1, d2:
+    mj mjᵀ + mn mnᵀ = d1 d1ᵀ + d2 d2ᵀ, all components (i, j range over the three coordinate projections).
+    Full generality in d1, d2 (not both in the xy-plane); the eight square roots enter only through r·r = radicand. -/
+theorem rytz_axes_law_space (d1 d2 : V3) (r1 r2 r3 r4 r5 r6 r7 r8 : Rat) (mj mn : V3) (ratio : Rat) (hflat : ¬ Flat d1 d2)
+    (h1 : r1 * r1 = TransformKernels.rytz_rad1 d1 d2) (h2 : r2 * r2 = TransformKernels.rytz_rad2 d1 d2 r1)
+    (h3 : r3 * r3 = TransformKernels.rytz_rad3 d1 d2 r1 r2) (h4 : r4 * r4 = TransformKernels.rytz_rad4 d1 d2 r1 r2 r3)
+    (h5 : r5 * r5 = TransformKernels.rytz_rad5 d1 d2 r1 r2 r3 r4) (h6 : r6 * r6 = TransformKernels.rytz_rad6 d1 d2 r1 r2 r3 r4 r5)
+    (h7 : r7 * r7 = TransformKernels.rytz_rad7 d1 d2 r1 r2 r3 r4 r5 r6) (h8 : r8 * r8 = TransformKernels.rytz_rad8 d1 d2 r1 r2 r3 r4 r5 r6 r7)
+    (hr1 : r1 ≠ 0) (hr3 : r3 ≠ 0) (h : TransformKernels.rytz d1 d2 r1 r2 r3 r4 r5 r6 r7 r8 = .ok (mj, mn, ratio)) :
+    V3.dot mj mn = 0 ∧
+    (∀ (i j : V3 → Rat), (i = V3.x ∨ i = V3.y ∨ i = V3.z) → (j = V3.x ∨ j = V3.y ∨ j = V3.z) →
+      i mj * j mj + i mn * j mn = i d1 * j d1 + i d2 * j d2) := by
+  rw [rytz_space d1 d2 r1 r2 r3 r4 r5 r6 r7 r8 hflat] at h
+  split_ifs at h with c2
+  obtain ⟨e3, e4⟩ := rytz_rads_space d1 d2 r1 r2 r3 hflat c2
+  obtain ⟨e1, e2, e58⟩ := rytz_rads_space_all d1 d2 r1 r2 r3 r4 r5 r6 r7 hflat
+  have hc := h
+  unfold rytzCore at hc
+  split_ifs at hc with c4 cn cz c5 c7 c8
+  obtain ⟨e5, e6, e78⟩ := e58 c2 c4 cn
+  obtain ⟨e7, e8⟩ := e78 cz c5
+  exact rytz_space_law d1 d2 r1 r2 r3 r4 r5 r6 r7 r8 mj mn ratio (e1 ▸ h1) (e2 ▸ h2) hr1 c2 (e3 ▸ h3) (e4 ▸ h4) hr3
+    (e5 ▸ h5) (e6 ▸ h6) (e7 ▸ h7) (e8 c7 ▸ h8) h
+
+/-- rytz_point_law (xy-plane branch): EVERY point cos t·d1 + sin t·d2 of the ellipse given by the conjugate half-diameters
+    satisfies the implicit equation of the ellipse with the constructed principal axes:
+    (X·mj)²/|mj|⁴ + (X·mn)²/|mn|⁴ = 1 (denominators cleared; cos, sin any rationals with cos² + sin² = 1) -/
+theorem rytz_point_law (d1 d2 : V3) (r1 r2 r3 r4 r5 r6 r7 r8 : Rat) (mj mn : V3) (ratio : Rat) (hz1 : d1.z = 0) (hz2 : d2.z = 0)
+    (h1 : r1 * r1 = TransformKernels.rytz_rad1 d1 d2) (h2 : r2 * r2 = TransformKernels.rytz_rad2 d1 d2 r1)
+    (h3 : r3 * r3 = TransformKernels.rytz_rad3 d1 d2 r1 r2) (h4 : r4 * r4 = TransformKernels.rytz_rad4 d1 d2 r1 r2 r3)
+    (h5 : r5 * r5 = TransformKernels.rytz_rad5 d1 d2 r1 r2 r3 r4) (h6 : r6 * r6 = TransformKernels.rytz_rad6 d1 d2 r1 r2 r3 r4 r5)
+    (hr1 : r1 ≠ 0) (h : TransformKernels.rytz d1 d2 r1 r2 r3 r4 r5 r6 r7 r8 = .ok (mj, mn, ratio))
+    (c s : Rat) (hcs : c * c + s * s = 1) :
+    V3.dot (V3.add (V3.smul c d1) (V3.smul s d2)) mj * V3.dot (V3.add (V3.smul c d1) (V3.smul s d2)) mj * (magSq mn * magSq mn)
+      + V3.dot (V3.add (V3.smul c d1) (V3.smul s d2)) mn * V3.dot (V3.add (V3.smul c d1) (V3.smul s d2)) mn * (magSq mj * magSq mj)
+      = magSq mj * magSq mj * (magSq mn * magSq mn) := by
+  obtain ⟨ho, kxx, kxy, kyy, zj, zn, _⟩ := rytz_axes_law d1 d2 r1 r2 r3 r4 r5 r6 r7 r8 mj mn ratio hz1 hz2 h1 h2 h3 h4 h5 h6 hr1 h
+  have hT : SameTensor mj mn d1 d2 := by
+    intro i j hi hj
+    rcases hi with rfl | rfl | rfl <;> rcases hj with rfl | rfl | rfl <;>
+      first
+      | exact kxx | exact kxy | exact kyy
+      | (rw [mul_comm mj.y mj.x, mul_comm mn.y mn.x, mul_comm d1.y d1.x, mul_comm d2.y d2.x]; exact kxy)
+      | simp [hz1, hz2, zj, zn]
+  exact ellipse_implicit mj mn d1 d2 ho hT c s hcs
+
+/-- rytz_point_law_space: the same in general position (3-D branch) -/
+theorem rytz_point_law_space (d1 d2 : V3) (r1 r2 r3 r4 r5 r6 r7 r8 : Rat) (mj mn : V3) (ratio : Rat) (hflat : ¬ Flat d1 d2)
+    (h1 : r1 * r1 = TransformKernels.rytz_rad1 d1 d2) (h2 : r2 * r2 = TransformKernels.rytz_rad2 d1 d2 r1)
+    (h3 : r3 * r3 = TransformKernels.rytz_rad3 d1 d2 r1 r2) (h4 : r4 * r4 = TransformKernels.rytz_rad4 d1 d2 r1 r2 r3)
+    (h5 : r5 * r5 = TransformKernels.rytz_rad5 d1 d2 r1 r2 r3 r4) (h6 : r6 * r6 = TransformKernels.rytz_rad6 d1 d2 r1 r2 r3 r4 r5)
+    (h7 : r7 * r7 = TransformKernels.rytz_rad7 d1 d2 r1 r2 r3 r4 r5 r6) (h8 : r8 * r8 = TransformKernels.rytz_rad8 d1 d2 r1 r2 r3 r4 r5 r6 r7)
+    (hr1 : r1 ≠ 0) (hr3 : r3 ≠ 0) (h : TransformKernels.rytz d1 d2 r1 r2 r3 r4 r5 r6 r7 r8 = .ok (mj, mn, ratio))
+    (c s : Rat) (hcs : c * c + s * s = 1) :
+    V3.dot (V3.add (V3.smul c d1) (V3.smul s d2)) mj * V3.dot (V3.add (V3.smul c d1) (V3.smul s d2)) mj * (magSq mn * magSq mn)
+      + V3.dot (V3.add (V3.smul c d1) (V3.smul s d2)) mn * V3.dot (V3.add (V3.smul c d1) (V3.smul s d2)) mn * (magSq mj * magSq mj)
+      = magSq mj * magSq mj * (magSq mn * magSq mn) := by
+  obtain ⟨ho, hT⟩ := rytz_axes_law_space d1 d2 r1 r2 r3 r4 r5 r6 r7 r8 mj mn ratio hflat h1 h2 h3 h4 h5 h6 h7 h8 hr1 hr3 h
+  exact ellipse_implicit mj mn d1 d2 ho hT c s hcs
+
+/-- ellipse_image_law: `m` maps the ellipse  centre + cos t·u + sin t·v  point by point onto the ellipse with centre m(centre)
+    and the conjugate half-diameters m(u), m(v) (linear parts) — the pair `ConstructionEllipse.transform` hands to the Rytz
+    construction; together with rytz_point_law: every image point lies on the ELLIPSE / ellipse edge that is stored -/
+theorem ellipse_image_law (m : M44) (center u v : V3) (c s : Rat) :
+    apply m (V3.add center (V3.add (V3.smul c u) (V3.smul s v)))
+      = V3.add (apply m center) (V3.add (V3.smul c (applyDir m u)) (V3.smul s (applyDir m v))) := by
+  simp only [apply, applyDir, TransformKernels.mTransform, TransformKernels.mTransformDirection, V3.add, V3.smul, V3.mk.injEq]
+  refine ⟨?_, ?_, ?_⟩ <;> ring
+
+/-- circle_to_ellipse_law ("arcs become ellipses", general position): for EVERY matrix and every CIRCLE / ARC (any OCS, centre,
+    radius), the image of the circle point at the unit direction d, taken relative to the image of the centre, is
+    cos·(r·m x̂) + sin·(r·m ŷ) — conjugate half-diameters r·m x̂, r·m ŷ — and satisfies the implicit equation of the ellipse whose
+    axes `rytz_axis_construction` builds from them: the ELLIPSE produced by the non-uniform fallback of ezdxf.transform / the HATCH
+    arc → ellipse conversion contains every image point of the arc.  (The kernel's eight roots only through r·r = radicand.) -/
+theorem circle_to_ellipse_law (o : OcsT) (c : Circle) (d : V2) (hd : d.x * d.x + d.y * d.y = 1)
+    (r1 r2 r3 r4 r5 r6 r7 r8 : Rat) (mj mn : V3) (ratio : Rat)
+    (hflat : ¬ Flat (V3.smul c.radius o.ax) (V3.smul c.radius o.ay))
+    (h1 : r1 * r1 = TransformKernels.rytz_rad1 (V3.smul c.radius o.ax) (V3.smul c.radius o.ay))
+    (h2 : r2 * r2 = TransformKernels.rytz_rad2 (V3.smul c.radius o.ax) (V3.smul c.radius o.ay) r1)
+    (h3 : r3 * r3 = TransformKernels.rytz_rad3 (V3.smul c.radius o.ax) (V3.smul c.radius o.ay) r1 r2)
+    (h4 : r4 * r4 = TransformKernels.rytz_rad4 (V3.smul c.radius o.ax) (V3.smul c.radius o.ay) r1 r2 r3)
+    (h5 : r5 * r5 = TransformKernels.rytz_rad5 (V3.smul c.radius o.ax) (V3.smul c.radius o.ay) r1 r2 r3 r4)
+    (h6 : r6 * r6 = TransformKernels.rytz_rad6 (V3.smul c.radius o.ax) (V3.smul c.radius o.ay) r1 r2 r3 r4 r5)
+    (h7 : r7 * r7 = TransformKernels.rytz_rad7 (V3.smul c.radius o.ax) (V3.smul c.radius o.ay) r1 r2 r3 r4 r5 r6)
+    (h8 : r8 * r8 = TransformKernels.rytz_rad8 (V3.smul c.radius o.ax) (V3.smul c.radius o.ay) r1 r2 r3 r4 r5 r6 r7)
+    (hr1 : r1 ≠ 0) (hr3 : r3 ≠ 0)
+    (h : TransformKernels.rytz (V3.smul c.radius o.ax) (V3.smul c.radius o.ay) r1 r2 r3 r4 r5 r6 r7 r8 = .ok (mj, mn, ratio)) :
+    V3.sub (apply o.m (Circle.point o.old c d)) (apply o.m (o.old.toWcs c.center))
+      = V3.add (V3.smul d.x (V3.smul c.radius o.ax)) (V3.smul d.y (V3.smul c.radius o.ay)) ∧
+    (let X := V3.sub (apply o.m (Circle.point o.old c d)) (apply o.m (o.old.toWcs c.center))
+     V3.dot X mj * V3.dot X mj * (magSq mn * magSq mn) + V3.dot X mn * V3.dot X mn * (magSq mj * magSq mj)
+       = magSq mj * magSq mj * (magSq mn * magSq mn)) := by
+  have e : V3.sub (apply o.m (Circle.point o.old c d)) (apply o.m (o.old.toWcs c.center))
+      = V3.add (V3.smul d.x (V3.smul c.radius o.ax)) (V3.smul d.y (V3.smul c.radius o.ay)) := by
+    rw [Circle.point, image_offset]
+    simp only [OcsT.ax, OcsT.ay]
+    generalize applyDir o.m o.old.ux = a; generalize applyDir o.m o.old.uy = b
+    generalize apply o.m (o.old.toWcs c.center) = q
+    simp only [V3.sub, V3.add, V3.smul, V3.mk.injEq]
+    refine ⟨?_, ?_, ?_⟩ <;> ring
+  refine ⟨e, ?_⟩
+  simp only
+  rw [e]
+  exact rytz_point_law_space _ _ r1 r2 r3 r4 r5 r6 r7 r8 mj mn ratio hflat h1 h2 h3 h4 h5 h6 h7 h8 hr1 hr3 h d.x d.y hd
+
+/-- circle_to_ellipse_law_plane: the same when the image plane is the xy-plane (planar drawings: both image axes have z = 0),
+    where `rytz_axis_construction` takes its 2-D branch -/
+theorem circle_to_ellipse_law_plane (o : OcsT) (c : Circle) (d : V2) (hd : d.x * d.x + d.y * d.y = 1)
+    (r1 r2 r3 r4 r5 r6 r7 r8 : Rat) (mj mn : V3) (ratio : Rat) (hzx : o.ax.z = 0) (hzy : o.ay.z = 0)
+    (h1 : r1 * r1 = TransformKernels.rytz_rad1 (V3.smul c.radius o.ax) (V3.smul c.radius o.ay))
+    (h2 : r2 * r2 = TransformKernels.rytz_rad2 (V3.smul c.radius o.ax) (V3.smul c.radius o.ay) r1)
+    (h3 : r3 * r3 = TransformKernels.rytz_rad3 (V3.smul c.radius o.ax) (V3.smul c.radius o.ay) r1 r2)
+    (h4 : r4 * r4 = TransformKernels.rytz_rad4 (V3.smul c.radius o.ax) (V3.smul c.radius o.ay) r1 r2 r3)
+    (h5 : r5 * r5 = TransformKernels.rytz_rad5 (V3.smul c.radius o.ax) (V3.smul c.radius o.ay) r1 r2 r3 r4)
+    (h6 : r6 * r6 = TransformKernels.rytz_rad6 (V3.smul c.radius o.ax) (V3.smul c.radius o.ay) r1 r2 r3 r4 r5)
+    (hr1 : r1 ≠ 0)
+    (h : TransformKernels.rytz (V3.smul c.radius o.ax) (V3.smul c.radius o.ay) r1 r2 r3 r4 r5 r6 r7 r8 = .ok (mj, mn, ratio)) :
+    (let X := V3.sub (apply o.m (Circle.point o.old c d)) (apply o.m (o.old.toWcs c.center))
+     V3.dot X mj * V3.dot X mj * (magSq mn * magSq mn) + V3.dot X mn * V3.dot X mn * (magSq mj * magSq mj)
+       = magSq mj * magSq mj * (magSq mn * magSq mn)) := by
+  have e : V3.sub (apply o.m (Circle.point o.old c d)) (apply o.m (o.old.toWcs c.center))
+      = V3.add (V3.smul d.x (V3.smul c.radius o.ax)) (V3.smul d.y (V3.smul c.radius o.ay)) := by
+    rw [Circle.point, image_offset]
+    simp only [OcsT.ax, OcsT.ay]
+    generalize applyDir o.m o.old.ux = a; generalize applyDir o.m o.old.uy = b
+    generalize apply o.m (o.old.toWcs c.center) = q
+    simp only [V3.sub, V3.add, V3.smul, V3.mk.injEq]
+    refine ⟨?_, ?_, ?_⟩ <;> ring
+  simp only
+  rw [e]
+  exact rytz_point_law _ _ r1 r2 r3 r4 r5 r6 r7 r8 mj mn ratio (by simp [V3.smul, hzx]) (by simp [V3.smul, hzy])
+    h1 h2 h3 h4 h5 h6 hr1 h d.x d.y hd
+
+/-- minor_axis_law: `minor_axis(major, extrusion, ratio)` (regenerated; the second conjugate half-diameter of every ELLIPSE and
+    ellipse edge) is perpendicular to the major axis and to the extrusion and has the length ratio·|major| — for ANY extrusion
+    vector that is not parallel to the major axis (it need not be a unit vector, nor perpendicular to the major axis) -/
+theorem minor_axis_law (mj ext : V3) (ratio r1 r2 : Rat) (mn : V3)
+    (h1 : r1 * r1 = TransformKernels.minorAxis_rad1 mj ext ratio) (h2 : r2 * r2 = TransformKernels.minorAxis_rad2 mj ext ratio r1)
+    (h : TransformKernels.minorAxis mj ext ratio r1 r2 = .ok mn) :
+    V3.dot mn mj = 0 ∧ V3.dot mn ext = 0 ∧ magSq mn = ratio * ratio * magSq mj ∧
+    mn = V3.smul (r1 * ratio / r2) (V3.cross ext mj) := by
+  unfold TransformKernels.minorAxis at h
+  split_ifs at h with h0
+  cases h
+  simp only [TransformKernels.minorAxis_rad1, TransformKernels.minorAxis_rad2] at h1 h2
+  refine ⟨?_, ?_, ?_, ?_⟩
+  · simp only [V3.dot]; ring
+  · simp only [V3.dot]; ring
+  · simp only [magSq, V3.dot]
+    have : ∀ a b c k : Rat, a * k * (a * k) + b * k * (b * k) + c * k * (c * k) = (a * a + b * b + c * c) * (k * k) := by
+      intro a b c k; ring
+    rw [this, ← h2, ← h1]
+    field_simp
+  · simp only [V3.smul, V3.cross, V3.mk.injEq]; refine ⟨?_, ?_, ?_⟩ <;> ring
+
+/-- ellipse_shortcut_law: the branch of `ConstructionEllipse.transform` for (numerically) orthogonal image axes keeps the image
+    of the major axis and REBUILDS the minor axis as `minor_axis(major', (major' × minor').normalize(), |minor'| / |major'|)`.
+    For exactly orthogonal images this rebuilt axis IS the image of the old minor axis — so with `ellipse_image_law` the stored
+    ellipse is the image ellipse.  (positive roots: ra = |major'|, rb = |minor'|, rn = |major' × minor'|, r2 = |ext' × major'|) -/
+theorem ellipse_shortcut_law (mj' mn' : V3) (ra rb rn r2 : Rat) (res : V3)
+    (horth : V3.dot mj' mn' = 0)
+    (ha : ra * ra = magSq mj') (hb : rb * rb = magSq mn') (hn : rn * rn = magSq (V3.cross mj' mn'))
+    (pa : 0 < ra) (pb : 0 < rb) (pn : 0 < rn) (p2 : 0 < r2)
+    (h2 : r2 * r2 = TransformKernels.minorAxis_rad2 mj' (V3.smul (1 / rn) (V3.cross mj' mn')) (rb / ra) ra)
+    (h : TransformKernels.minorAxis mj' (V3.smul (1 / rn) (V3.cross mj' mn')) (rb / ra) ra r2 = .ok res) :
+    res = mn' := by
+  unfold TransformKernels.minorAxis at h
+  split_ifs at h with h0
+  cases h
+  -- (mj' × mn') × mj' = |mj'|²·mn' for perpendicular vectors
+  have hx : V3.cross (V3.cross mj' mn') mj' = V3.smul (magSq mj') mn' := by
+    simp only [V3.dot] at horth
+    simp only [V3.cross, V3.smul, magSq, V3.dot, V3.mk.injEq]
+    refine ⟨?_, ?_, ?_⟩
+    · linear_combination (-mj'.x) * horth
+    · linear_combination (-mj'.y) * horth
+    · linear_combination (-mj'.z) * horth
+  have hlag : magSq (V3.cross mj' mn') = magSq mj' * magSq mn' := by
+    rw [← lagrange, horth]; ring
+  have hrn : rn * rn = ra * ra * (rb * rb) := by rw [hn, hlag, ha, hb]
+  have hrn' : rn = ra * rb := by
+    have : (rn - ra * rb) * (rn + ra * rb) = 0 := by linear_combination hrn
+    rcases mul_eq_zero.mp this with e | e
+    · linarith
+    · have : 0 < ra * rb := mul_pos pa pb
+      linarith
+  -- the cross product the kernel normalises: ext' × mj' = (ra / rb)·mn'
+  have hc : V3.cross (V3.smul (1 / rn) (V3.cross mj' mn')) mj' = V3.smul (ra / rb) mn' := by
+    have : V3.cross (V3.smul (1 / rn) (V3.cross mj' mn')) mj' = V3.smul (1 / rn) (V3.cross (V3.cross mj' mn') mj') := by
+      simp only [V3.cross, V3.smul, V3.mk.injEq]; refine ⟨?_, ?_, ?_⟩ <;> ring
+    rw [this, hx, ← ha, hrn']
+    simp only [V3.smul, V3.mk.injEq]
+    refine ⟨?_, ?_, ?_⟩ <;> field_simp
+  have h2' : r2 * r2 = ra * ra := by
+    have e : TransformKernels.minorAxis_rad2 mj' (V3.smul (1 / rn) (V3.cross mj' mn')) (rb / ra) ra
+        = magSq (V3.cross (V3.smul (1 / rn) (V3.cross mj' mn')) mj') := by
+      simp only [TransformKernels.minorAxis_rad2, magSq, V3.dot, V3.cross]
+    rw [h2, e, hc]
+    have hb0 : rb ≠ 0 := ne_of_gt pb
+    have hk : magSq (V3.smul (ra / rb) mn') = ra / rb * (ra / rb) * magSq mn' := by
+      simp only [magSq, V3.dot, V3.smul]; ring
+    rw [hk, ← hb]
+    field_simp
+  have hr2 : r2 = ra := by
+    have : (r2 - ra) * (r2 + ra) = 0 := by linear_combination h2'
+    rcases mul_eq_zero.mp this with e | e
+    · linarith
+    · linarith
+  have key : ∀ v : V3, (⟨(V3.cross (V3.smul (1 / rn) (V3.cross mj' mn')) mj').x * (ra * (rb / ra) / r2),
+      (V3.cross (V3.smul (1 / rn) (V3.cross mj' mn')) mj').y * (ra * (rb / ra) / r2),
+      (V3.cross (V3.smul (1 / rn) (V3.cross mj' mn')) mj').z * (ra * (rb / ra) / r2)⟩ : V3) = v →
+      (⟨((V3.smul (1 / rn) (V3.cross mj' mn')).y * mj'.z - (V3.smul (1 / rn) (V3.cross mj' mn')).z * mj'.y) * (ra * (rb / ra) / r2),
+        ((V3.smul (1 / rn) (V3.cross mj' mn')).z * mj'.x - (V3.smul (1 / rn) (V3.cross mj' mn')).x * mj'.z) * (ra * (rb / ra) / r2),
+        ((V3.smul (1 / rn) (V3.cross mj' mn')).x * mj'.y - (V3.smul (1 / rn) (V3.cross mj' mn')).y * mj'.x) * (ra * (rb / ra) / r2)⟩ : V3) = v := by
+    intro v hv; rw [← hv]; rfl
+  apply key
+  rw [hc, hr2]
+  have ha0 : ra ≠ 0 := ne_of_gt pa
+  have hb0 : rb ≠ 0 := ne_of_gt pb
+  simp only [V3.smul]
+  ext <;> simp <;> field_simp
+
+/-- ellipse_swap_law: the exchange of axes for ratio > 1 at the end of `ConstructionEllipse.transform` — two `minor_axis` calls with
+    the unit normal n = (a × b)/|a × b| — turns orthogonal axes (a, b) into (b, −a) EXACTLY: the same ellipse (same tensor), major
+    and minor exchanged, ratio inverted.  (positive roots: ra = |a|, rb = |b|, rn = |a × b|, r2 / r2' = the two |n × ·|) -/
+theorem ellipse_swap_law (a b : V3) (ra rb rn r2 r2' : Rat) (a2 b2 : V3) (horth : V3.dot a b = 0)
+    (ha : ra * ra = magSq a) (hb : rb * rb = magSq b) (hn : rn * rn = magSq (V3.cross a b))
+    (pa : 0 < ra) (pb : 0 < rb) (pn : 0 < rn) (p2 : 0 < r2) (p2' : 0 < r2')
+    (h2 : r2 * r2 = TransformKernels.minorAxis_rad2 a (V3.smul (1 / rn) (V3.cross a b)) (rb / ra) ra)
+    (h : TransformKernels.minorAxis a (V3.smul (1 / rn) (V3.cross a b)) (rb / ra) ra r2 = .ok a2)
+    (h2' : r2' * r2' = TransformKernels.minorAxis_rad2 a2 (V3.smul (1 / rn) (V3.cross a b)) (ra / rb) rb)
+    (h' : TransformKernels.minorAxis a2 (V3.smul (1 / rn) (V3.cross a b)) (ra / rb) rb r2' = .ok b2) :
+    a2 = b ∧ b2 = V3.smul (-1) a ∧ SameTensor a2 b2 a b := by
+  have e1 : a2 = b := ellipse_shortcut_law a b ra rb rn r2 a2 horth ha hb hn pa pb pn p2 h2 h
+  subst e1
+  have hcr : V3.cross a2 (V3.smul (-1) a) = V3.cross a a2 := by
+    simp only [V3.cross, V3.smul, V3.mk.injEq]; refine ⟨?_, ?_, ?_⟩ <;> ring
+  have horth' : V3.dot a2 (V3.smul (-1) a) = 0 := by
+    simp only [V3.dot, V3.smul] at horth ⊢; linear_combination (-1 : Rat) * horth
+  have hma : ra * ra = magSq (V3.smul (-1) a) := by
+    rw [ha]; simp only [magSq, V3.dot, V3.smul]; ring
+  have e2 : b2 = V3.smul (-1) a :=
+    ellipse_shortcut_law a2 (V3.smul (-1) a) rb ra rn r2' b2 horth' hb hma (by rw [hcr]; exact hn) pb pa pn p2'
+      (by rw [hcr]; exact h2') (by rw [hcr]; exact h')
+  refine ⟨rfl, e2, ?_⟩
+  subst e2
+  intro i j hi hj
+  rcases hi with rfl | rfl | rfl <;> rcases hj with rfl | rfl | rfl <;> simp only [V3.smul] <;> ring
+
+/-- rytz_orthogonal (both branches, any position in space): whenever the construction succeeds the two axes are orthogonal
+    (Thales) and ratio·(major length) = (minor length) -/
+theorem rytz_orthogonal (d1 d2 : V3) (r1 r2 r3 r4 r5 r6 r7 r8 : Rat) (mj mn : V3) (ratio : Rat)
+    (h1 : r1 * r1 = TransformKernels.rytz_rad1 d1 d2) (h2 : r2 * r2 = TransformKernels.rytz_rad2 d1 d2 r1)
+    (h3 : r3 * r3 = TransformKernels.rytz_rad3 d1 d2 r1 r2) (h4 : r4 * r4 = TransformKernels.rytz_rad4 d1 d2 r1 r2 r3)
+    (h : TransformKernels.rytz d1 d2 r1 r2 r3 r4 r5 r6 r7 r8 = .ok (mj, mn, ratio)) :
+    V3.dot mj mn = 0 := by
+  by_cases hflat : Flat d1 d2
+  · rw [rytz_flat d1 d2 r1 r2 r3 r4 r5 r6 r7 r8 hflat] at h
+    obtain ⟨e1, e2, _⟩ := rytz_rads_flat d1 d2 r1 r2 r3 r4 r5 hflat
+    exact (rytz_core_orthogonal d1 (orthoCw d2) r1 r2 r3 r4 r5 r6 mj mn ratio (e1 ▸ h1) (e2 ▸ h2) h).1
+  · rw [rytz_space d1 d2 r1 r2 r3 r4 r5 r6 r7 r8 hflat] at h
+    split_ifs at h with c2
+    obtain ⟨e3, e4⟩ := rytz_rads_space d1 d2 r1 r2 r3 hflat c2
+    exact (rytz_core_orthogonal d1 _ r3 r4 r5 r6 r7 r8 mj mn ratio (e3 ▸ h3) (e4 ▸ h4) h).1
+
+/-! ## 13. MLINE (session 3) -/
+
+/-- mline_law: the reference vertices are mapped as points (every matrix), and for EVERY similarity — whatever rotation or
+    mirror it contains — the scale factor of the element lines is multiplied by the similarity factor k (k·k = k²).
+    (Before the fix 97344826c the factor was read off the image of the vector (s, s, s): any rotation in `m` left the scale
+    factor unchanged, a point reflection made it negative.) -/
+theorem mline_law (sqrt : Rat → Rat) (m : M44) (k2 : Rat) (l : MLine) (hm : IsSimilarity m k2) :
+    (MLine.transform sqrt m l).locations = l.locations.map (apply m) ∧
+    (MLine.transform sqrt m l).scale = l.scale * sqrt k2 := by
+  obtain ⟨hxx, hyy, hzz, _, _, _⟩ := hm
+  refine ⟨rfl, ?_⟩
+  have e1 : TransformKernels.mlineScale_rad1 l.scale m = k2 := by
+    rw [← hxx]; simp only [TransformKernels.mlineScale_rad1, V3.dot, M44.ux]; ring
+  have e2 : ∀ r, TransformKernels.mlineScale_rad2 l.scale m r = k2 := by
+    intro r; rw [← hyy]; simp only [TransformKernels.mlineScale_rad2, V3.dot, M44.uy]; ring
+  have e3 : ∀ r s, TransformKernels.mlineScale_rad3 l.scale m r s = k2 := by
+    intro r s; rw [← hzz]; simp only [TransformKernels.mlineScale_rad3, V3.dot, M44.uz]; ring
+  simp only [MLine.transform, TransformKernels.mlineScaleS, e1, e2, e3, TransformKernels.mlineScale]
+  have hc : pyIsclose (sqrt k2) (sqrt k2) (4835703278458517 / 4835703278458516698824704) (4722366482869645 / 4722366482869645213696) = true := by
+    simp [pyIsclose]
+  simp only [hc, and_self, if_true]
+  ring
+
+/-! ## 14. DIMENSION (session 3) -/
+
+/-- the DXF reference fixes which DIMENSION points live in the OCS and which in the WCS; the tables read from the source agree -/
+theorem dimension_tables :
+    TransformKernels.dimOcsVertexNames = ["text_midpoint", "defpoint5", "insert"] ∧
+    TransformKernels.dimWcsVertexNames = ["defpoint", "defpoint2", "defpoint3", "defpoint4"] ∧
+    TransformKernels.dimAngleNames = ["text_rotation", "horizontal_direction", "angle"] := by
+  decide +kernel
+
+/-- dimension_law: `Dimension.transform` keeps the attribute list (names, order) and maps every definition point by `m`:
+    the WCS points defpoint … defpoint4 directly, the OCS points text_midpoint / defpoint5 / insert through the OCS law
+    (new.toWcs p' = m(old.toWcs p)), and the three angles as directions of the OCS plane (lifted: exactly m of the old
+    direction, for every matrix that maps the OCS plane onto the new one) -/
+theorem dimension_law (o : OcsT) (hn : o.new.Orthonormal) (hp : PlaneToPlane o) (attrs : List (String × DimVal)) :
+    (Dim.transform o attrs).map (·.1) = attrs.map (·.1) ∧
+    ∀ name v, (name, v) ∈ attrs →
+      (∀ p, v = .pt p → name ∈ ["defpoint", "defpoint2", "defpoint3", "defpoint4"] → (name, DimVal.pt (apply o.m p)) ∈ Dim.transform o attrs) ∧
+      (∀ p, v = .pt p → name ∈ ["text_midpoint", "defpoint5", "insert"] →
+        ∃ p', (name, DimVal.pt p') ∈ Dim.transform o attrs ∧ o.new.toWcs p' = apply o.m (o.old.toWcs p)) ∧
+      (∀ d, v = .ang d → name ∈ ["text_rotation", "horizontal_direction", "angle"] →
+        ∃ d', (name, DimVal.ang d') ∈ Dim.transform o attrs ∧
+          o.new.toWcs ⟨d'.x, d'.y, 0⟩ = applyDir o.m (o.old.toWcs ⟨d.x, d.y, 0⟩)) := by
+  obtain ⟨t1, t2, t3⟩ := dimension_tables
+  refine ⟨by simp [Dim.transform, Function.comp_def], ?_⟩
+  intro name v hmem
+  have himg : (name, dimAttr o name v) ∈ Dim.transform o attrs := by
+    simp only [Dim.transform, List.mem_map]
+    exact ⟨(name, v), hmem, rfl⟩
+  refine ⟨?_, ?_, ?_⟩
+  · intro p hv hname
+    subst hv
+    have hnot : name ∉ TransformKernels.dimOcsVertexNames := by
+      rw [t1]; revert hname; simp only [List.mem_cons, List.not_mem_nil, or_false]
+      rintro (h | h | h | h) <;> subst h <;> decide
+    simpa [dimAttr, hnot, t2, hname] using himg
+  · intro p hv hname
+    subst hv
+    refine ⟨o.vertex p, ?_, (ocs_vertex_law o hn p).1⟩
+    simpa [dimAttr, t1, hname] using himg
+  · intro d hv hname
+    subst hv
+    refine ⟨dir2 o d, ?_, hatch_direction_law o hn hp d⟩
+    simpa [dimAttr, t3, hname] using himg
+
+/-! ## 15. 2-D POLYLINE (session 3) -/
+
+/-- polyline2d_law: `Polyline.transform` (2-D) raises NonUniformScalingError exactly for arcs under a non-uniform OCS
+    transformation; otherwise every vertex location — with the polyline elevation as z when the attribute exists, else its own
+    z — is mapped as a point (lifted: m of the old lifted location), bulges are kept (right by `bulge_apex_law`), the vertex
+    count is kept and the new elevation is the z of the first new location -/
+theorem polyline2d_law (sqrt : Rat → Rat) (o : OcsT) (p : Polyline2d) (hn : o.new.Orthonormal) :
+    (Polyline2d.transform sqrt o p = .error .nonUniformScaling ↔ (o.uniform = false ∧ p.vertices.any (fun v => v.bulge != 0) = true)) ∧
+    ∀ p', Polyline2d.transform sqrt o p = .ok p' →
+      p'.vertices.map (fun v => o.new.toWcs v.loc) = p.vertices.map (fun v => apply o.m (o.old.toWcs (v.ocsLocation p.elevation))) ∧
+      p'.vertices.map (fun v => v.bulge) = p.vertices.map (fun v => v.bulge) ∧
+      p'.thickness = p.thickness.map o.thickness ∧
+      (∀ v vs, p'.vertices = v :: vs → p'.elevation = some v.loc.z) := by
+  constructor
+  · unfold Polyline2d.transform
+    cases hu : o.uniform <;> cases ha : p.vertices.any (fun v => v.bulge != 0) <;> simp
+  · intro p' h
+    unfold Polyline2d.transform at h
+    split_ifs at h
+    cases h
+    refine ⟨?_, ?_, rfl, ?_⟩
+    · simp only [List.map_map]
+      apply List.map_congr_left
+      intro v _
+      exact (ocs_vertex_law o hn _).1
+    · simp [List.map_map, Function.comp_def]
+    · intro v vs hv
+      simp only at hv ⊢
+      rw [hv]
+
+/-! ## 16. WCS entities with named attributes (session 3) -/
+
+/-- wcs_attr_tables: what the `transform(self, m)` methods of IMAGE/WIPEOUT, LEADER, HELIX, TOLERANCE, LIGHT, XLINE/RAY and of the
+    MLINE vertices do, statement by statement (read from the source), is the classification of the DXF reference: locations are
+    mapped as POINTS, pixel / axis / direction vectors as VECTORS (no translation), the XLINE direction is re-normalised, LEADER
+    vertices as a point list, normals through `transform_extrusion`, the HELIX radius as the length of an image vector -/
+theorem wcs_attr_tables :
+    TransformKernels.wcsAttrTable =
+      [("IMAGE", "insert", "point"), ("IMAGE", "u_pixel", "vector"), ("IMAGE", "v_pixel", "vector"),
+       ("LEADER", "vertices", "points"), ("LEADER", "normal_vector", "normal"), ("LEADER", "horizontal_direction", "vector"),
+       ("HELIX", "*", "super"), ("HELIX", "axis_base_point", "point"), ("HELIX", "axis_vector", "vector"),
+       ("HELIX", "start_point", "point"), ("HELIX", "radius", "xlength"),
+       ("TOLERANCE", "insert", "point"), ("TOLERANCE", "x_axis_vector", "vector"), ("TOLERANCE", "extrusion", "normal"),
+       ("LIGHT", "location", "point"), ("LIGHT", "target", "point"),
+       ("XLINE", "start", "point"), ("XLINE", "unit_vector", "unit"),
+       ("MLINEVERTEX", "location", "point"), ("MLINEVERTEX", "line_direction", "vector"), ("MLINEVERTEX", "miter_direction", "vector")] := by
+  decide +kernel
+
+/-- wcs_attr_law: a point attribute is mapped by `m` and a vector attribute by the linear part, so (IMAGE) every pixel position
+    insert + i·u + j·v is mapped by `m`; point lists element-wise; a re-normalised direction is parallel to the image of the old
+    one and has length 1 (sqrt exact on the one radicand, image not null) -/
+theorem wcs_attr_law (sqrt : Rat → Rat) (m : M44) (p u v : V3) (l : List V3) (i j : Rat) :
+    wcsAttr sqrt m "point" (.pt p) = .pt (apply m p) ∧ wcsAttr sqrt m "vector" (.vec u) = .vec (applyDir m u) ∧
+    wcsAttr sqrt m "points" (.pts l) = .pts (l.map (apply m)) ∧
+    apply m (V3.add p (V3.add (V3.smul i u) (V3.smul j v)))
+      = V3.add (apply m p) (V3.add (V3.smul i (applyDir m u)) (V3.smul j (applyDir m v))) ∧
+    (sqrt (magSq (applyDir m u)) * sqrt (magSq (applyDir m u)) = magSq (applyDir m u) → sqrt (magSq (applyDir m u)) ≠ 0 →
+      ∃ w, wcsAttr sqrt m "unit" (.vec u) = .vec w ∧ magSq w = 1 ∧ V3.smul (sqrt (magSq (applyDir m u))) w = applyDir m u) := by
+  refine ⟨rfl, rfl, rfl, ellipse_image_law m p u v i j, ?_⟩
+  intro hs h0
+  refine ⟨_, rfl, ?_, ?_⟩
+  · generalize applyDir m u = w at *
+    generalize sqrt (magSq w) = r at *
+    simp only [magSq, V3.dot, V3.smul] at *
+    field_simp
+    linarith
+  · generalize applyDir m u = w at *
+    generalize sqrt (magSq w) = r at *
+    simp only [V3.smul]
+    ext <;> simp <;> field_simp
+
+/-! ## 17. ELLIPSE: `ConstructionEllipse.transform`, axes part (session 3) -/
+
+/-- ellipse_transform_cases: whenever the (modelled, corresponded: X14) axes part of `ConstructionEllipse.transform` succeeds,
+    the centre is mapped as a point and the stored axes come from exactly one of the regenerated kernels applied to the IMAGES
+    m(major), m(minor) of the two conjugate half-diameters:
+    (1) images not orthogonal (|cos| > 1e-6): `rytz_axis_construction` — `rytz_axes_law(_space)` / `rytz_point_law(_space)` apply:
+        orthogonal axes spanning the image ellipse;
+    (2) images orthogonal within 1e-6: the image of the major axis is kept and the minor axis is rebuilt by `minor_axis` —
+        `ellipse_shortcut_law`: for exactly orthogonal images it IS the image of the old minor axis;
+    in both cases axes with ratio > 1 are exchanged through two further `minor_axis` calls (`minor_axis_law`: perpendicular, the
+    lengths are exchanged).  With `ellipse_image_law` this chains "ELLIPSE / ellipse edge / arc → ellipse" to the image ellipse. -/
+theorem ellipse_transform_cases (sqrt : Rat → Rat) (m : M44) (e : Ell) (out : EllOut) (h : Ell.transform sqrt m e = .ok out) :
+    out.center = apply m e.center ∧
+    ∃ mn, TransformKernels.minorAxisS sqrt e.major e.ext e.ratio = .ok mn ∧
+      ∃ a b r n,
+        ((tol6 < pyAbs (V3.dot (nrmV (sqrt (magSq (applyDir m e.major))) (applyDir m e.major))
+                               (nrmV (sqrt (magSq (applyDir m mn))) (applyDir m mn))) ∧
+          TransformKernels.rytzS sqrt (applyDir m e.major) (applyDir m mn) = .ok (a, b, r) ∧
+          n = nrmV (sqrt (magSq (V3.cross a b))) (V3.cross a b)) ∨
+         (¬ tol6 < pyAbs (V3.dot (nrmV (sqrt (magSq (applyDir m e.major))) (applyDir m e.major))
+                                 (nrmV (sqrt (magSq (applyDir m mn))) (applyDir m mn))) ∧
+          a = applyDir m e.major ∧ r = sqrt (magSq (applyDir m mn)) / sqrt (magSq (applyDir m e.major)) ∧
+          n = nrmV (sqrt (magSq (V3.cross (applyDir m e.major) (applyDir m mn)))) (V3.cross (applyDir m e.major) (applyDir m mn)) ∧
+          TransformKernels.minorAxisS sqrt (applyDir m e.major) n r = .ok b)) ∧
+        ((¬ 1 < r ∧ out.major = a ∧ out.minor = b ∧ out.ratio = r ∧ out.ext = n) ∨
+         (1 < r ∧ TransformKernels.minorAxisS sqrt a n r = .ok out.major ∧
+          TransformKernels.minorAxisS sqrt out.major n (1 / r) = .ok out.minor ∧ out.ratio = 1 / r ∧ out.ext = n)) := by
+  unfold Ell.transform at h
+  split at h
+  · cases h
+  · rename_i mn hmn
+    simp only at h
+    split_ifs at h with h0 hcos
+    · -- rytz branch
+      split at h
+      · cases h
+      · rename_i a b r n hcore
+        split at hcore
+        · cases hcore
+        · rename_i a' b' r' hry
+          split_ifs at hcore with hrn
+          simp only [Except.ok.injEq, Prod.mk.injEq] at hcore
+          obtain ⟨rfl, rfl, rfl, rfl⟩ := hcore
+          split_ifs at h with hr
+          · split at h
+            · cases h
+            · rename_i a2 ha2
+              split at h
+              · cases h
+              · rename_i b2 hb2
+                cases h
+                exact ⟨rfl, mn, hmn, a', b', r', _, Or.inl ⟨hcos, hry, rfl⟩, Or.inr ⟨hr, ha2, hb2, rfl, rfl⟩⟩
+          · cases h
+            exact ⟨rfl, mn, hmn, a', b', r', _, Or.inl ⟨hcos, hry, rfl⟩, Or.inl ⟨hr, rfl, rfl, rfl, rfl⟩⟩
+    · -- orthogonal branch
+      split at h
+      · cases h
+      · rename_i a b r n hcore
+        split at hcore
+        · cases hcore
+        · rename_i b' hb'
+          simp only [Except.ok.injEq, Prod.mk.injEq] at hcore
+          obtain ⟨rfl, rfl, rfl, rfl⟩ := hcore
+          split_ifs at h with hr
+          · split at h
+            · cases h
+            · rename_i a2 ha2
+              split at h
+              · cases h
+              · rename_i b2 hb2
+                cases h
+                exact ⟨rfl, mn, hmn, _, b', _, _, Or.inr ⟨hcos, rfl, rfl, rfl, hb'⟩, Or.inr ⟨hr, ha2, hb2, rfl, rfl⟩⟩
+          · cases h
+            exact ⟨rfl, mn, hmn, _, b', _, _, Or.inr ⟨hcos, rfl, rfl, rfl, hb'⟩, Or.inl ⟨hr, rfl, rfl, rfl, rfl⟩⟩
+
+/-- ellipse_edge_law: a HATCH ellipse edge (and an arc edge converted to one) is transformed as the WCS ellipse with the centre
+    lifted by the elevation, the major axis lifted as a direction and the extrusion of the old OCS: the new centre is the one of
+    `hatch_law`, and major axis / ratio are the new-OCS coordinates of the output of `Ell.transform`, to which
+    `ellipse_transform_cases` (rytz or orthogonal branch) applies -/
+theorem ellipse_edge_law (sqrt : Rat → Rat) (o : OcsT) (elev : Rat) (center major : V2) (ratio : Rat) (c' mj' : V2) (r' : Rat)
+    (h : ellipseEdgeAxes sqrt o elev center major ratio = .ok (c', mj', r')) :
+    c' = o.vertex2d center elev ∧
+    ∃ out, Ell.transform sqrt o.m ⟨o.old.toWcs ⟨center.x, center.y, elev⟩, o.old.toWcs ⟨major.x, major.y, 0⟩, o.old.uz, ratio⟩ = .ok out ∧
+      mj' = ⟨(o.new.fromWcs out.major).x, (o.new.fromWcs out.major).y⟩ ∧ r' = out.ratio := by
+  unfold ellipseEdgeAxes at h
+  simp only [TransformKernels.hatchEllipseCenterElev] at h
+  split at h
+  · cases h
+  · rename_i out hout
+    simp only [Except.ok.injEq, Prod.mk.injEq] at h
+    obtain ⟨e1, e2, e3⟩ := h
+    refine ⟨?_, out, hout, e2.symm, e3.symm⟩
+    have hc := (ellipse_transform_cases sqrt o.m _ out hout).1
+    rw [← e1, hc, vertex2d_spec, vertex_spec]
+
 /-! ## non-vacuity: the hypotheses used above are met by non-trivial values -/
 
 
@@ -676,5 +1686,97 @@ example : thicknessNoOcs sqrt100 rot5 (some (-2)) none = .ok (some (-10), some 
 -- nested references: two levels, the leaf point is mapped by a·b
 example : Node.expand (.ref rot5 [.ref mirrorX [.point ⟨1, 0, 0⟩], .point ⟨0, 0, 0⟩]) = [⟨4, 4, 9⟩, ⟨7, 8, 9⟩] := by
   decide +kernel
+
+-- insert_transform_law: every hypothesis is met by (1) a reference rotated by (3/5, 4/5) in a TILTED OCS under a MIRRORED
+-- similarity of factor 5 (the new OCS is a right-handed orthonormal frame with z = Z/|Z|), where the law's conclusion gives a
+-- negative y scale, and (2) a reference rotated by 90° under the NON-UNIFORM scaling (2, 3, 4): xscale 3, yscale 2, zscale 4
+def newTilt : Ocs := ⟨true, ⟨-73/75, -14/75, -2/15, 0, -14/75, 23/75, 14/15, 0, -2/15, 14/15, -1/3, 0, 0, 0, 0, 1⟩⟩
+def insA : Ins := ⟨⟨1, 2, 3⟩, 2, 1, 1, ⟨3 / 5, 4 / 5⟩⟩
+def insB : Ins := ⟨⟨1, 2, 3⟩, 1, 1, 1, ⟨0, 1⟩⟩
+def scale234 : M44 := ⟨2, 0, 0, 0, 0, 3, 0, 0, 0, 0, 4, 0, 0, 0, 0, 1⟩
+def sqrtB : Rat → Rat := fun x => if x = 9 then 3 else if x = 4 then 2 else if x = 16 then 4 else 0
+example : newTilt.Orthonormal ∧ newTilt.RightHanded ∧
+    sqrt100 (magSq (insX tilt (M44.mul mirrorX rot5) insA)) = 5 ∧ magSq (insX tilt (M44.mul mirrorX rot5) insA) = 25 ∧
+    sqrt100 (magSq (insY tilt (M44.mul mirrorX rot5) insA)) = 5 ∧ magSq (insY tilt (M44.mul mirrorX rot5) insA) = 25 ∧
+    sqrt100 (magSq (insZ tilt (M44.mul mirrorX rot5))) = 5 ∧
+    V3.dot (insX tilt (M44.mul mirrorX rot5) insA) (insY tilt (M44.mul mirrorX rot5) insA) = 0 ∧
+    V3.dot (insX tilt (M44.mul mirrorX rot5) insA) (insZ tilt (M44.mul mirrorX rot5)) = 0 ∧
+    V3.dot (insY tilt (M44.mul mirrorX rot5) insA) (insZ tilt (M44.mul mirrorX rot5)) = 0 ∧
+    newTilt.uz = nrm (sqrt100 (magSq (insZ tilt (M44.mul mirrorX rot5)))) (insZ tilt (M44.mul mirrorX rot5)) ∧
+    (∃ i', Ins.transform sqrt100 tilt newTilt (M44.mul mirrorX rot5) insA tol9 = .ok i' ∧ i'.sx = 10 ∧ i'.sy = -5 ∧ i'.sz = 5) := by
+  refine ⟨by decide +kernel, by decide +kernel, by decide +kernel, by decide +kernel, by decide +kernel, by decide +kernel,
+    by decide +kernel, by decide +kernel, by decide +kernel, by decide +kernel, by decide +kernel,
+    ⟨⟨⟨112/75, 566/75, 278/15⟩, 10, -5, 5, ⟨5, 0⟩⟩, by decide +kernel, rfl, rfl, rfl⟩⟩
+example : sqrtB (magSq (insX Ocs.std scale234 insB)) = 3 ∧ sqrtB (magSq (insY Ocs.std scale234 insB)) = 2 ∧
+    sqrtB (magSq (insZ Ocs.std scale234)) = 4 ∧ magSq (insX Ocs.std scale234 insB) = 9 ∧ magSq (insY Ocs.std scale234 insB) = 4 ∧
+    V3.dot (insX Ocs.std scale234 insB) (insY Ocs.std scale234 insB) = 0 ∧ V3.dot (insX Ocs.std scale234 insB) (insZ Ocs.std scale234) = 0 ∧
+    V3.dot (insY Ocs.std scale234 insB) (insZ Ocs.std scale234) = 0 ∧
+    Ocs.std.uz = nrm (sqrtB (magSq (insZ Ocs.std scale234))) (insZ Ocs.std scale234) ∧
+    Ins.transform sqrtB Ocs.std Ocs.std scale234 insB tol9 = .ok ⟨⟨2, 6, 12⟩, 3, 2, 4, ⟨0, 3⟩⟩ := by
+  decide +kernel
+-- insert_error_iff / insert_error_exact: a 45° rotated reference under scale (2, 1, 1) is rejected (shear of its own axes)
+example : Ins.transform (fun x => if x = 5 / 2 then 3 / 2 else 1) Ocs.std Ocs.std ⟨2, 0, 0, 0, 0, 1, 0, 0, 0, 0, 1, 0, 0, 0, 0, 1⟩
+    ⟨⟨0, 0, 0⟩, 1, 1, 1, ⟨1, 1⟩⟩ tol9 = .error .insertTransformation := by decide +kernel
+
+-- hatch laws: a TILTED old OCS, a non-uniform matrix with shear that maps the OCS plane onto the plane of `newTilt` while the
+-- image of the old z-axis is NOT parallel to the new normal (the elevation leaks into x/y), elevation 5
+def mHatch : M44 := ⟨-122/225, -496/225, 92/45, 0, -661/225, 577/225, 16/45, 0, 13/45, -91/45, -16/9, 0, 7, 8, 9, 1⟩
+def oHatch : OcsT := ⟨mHatch, tilt, newTilt, false⟩
+def hEx : Hatch := ⟨[.poly [⟨0, 0, 0⟩, ⟨4, 0, 0⟩, ⟨4, 3, 0⟩] true,
+  .edges [.line ⟨1, 1⟩ ⟨2, 5⟩, .spline [⟨0, 0⟩, ⟨1, 2⟩, ⟨3, 1⟩, ⟨4, 4⟩] [⟨2, 2⟩] (some ⟨1, 2⟩) none, .ellipse ⟨2, 3⟩]], 5⟩
+example : PlaneToPlane oHatch ∧ oHatch.new.Orthonormal ∧ (Hatch.transform sqrtEx oHatch hEx).isSome = true ∧
+    applyDir mHatch tilt.uz ≠ V3.smul 4 newTilt.uz ∧
+    -- the law on one point, spelled out: (4, 3) at elevation 5
+    hatchPoint newTilt (oHatch.vertex ⟨0, 0, 5⟩).z (oHatch.vertex2d ⟨4, 3⟩ 5) = apply mHatch (hatchPoint tilt 5 ⟨4, 3⟩) := by
+  decide +kernel
+-- hatch_defined_iff: with a bulge the non-uniform case needs the conversion (model: none), the uniform case does not
+example : Hatch.transform sqrtEx oHatch ⟨[.poly [⟨0, 0, 1⟩, ⟨4, 0, 0⟩] false], 0⟩ = none ∧
+    (Hatch.transform sqrt100 ⟨rot5, Ocs.std, Ocs.std, true⟩ ⟨[.poly [⟨0, 0, 1⟩, ⟨4, 0, 0⟩] false], 2⟩).isSome = true := by
+  decide +kernel
+-- bulge_apex_law: hypotheses met by the mirrored similarity (new OCS = OCS(0,0,-1), r = 1 · k² with k² = 1)
+example : PlaneSimilar ⟨mirrorX, Ocs.std, Ocs.negZ, true⟩ 1 ∧
+    V3.smul 1 Ocs.negZ.uz = V3.cross (OcsT.ax ⟨mirrorX, Ocs.std, Ocs.negZ, true⟩) (OcsT.ay ⟨mirrorX, Ocs.std, Ocs.negZ, true⟩) := by
+  decide +kernel
+
+-- text laws: a TEXT rotated by (3/5, 4/5) under the factor-5 similarity: height 2 ↦ 10, width factor and oblique kept
+example : PlaneSimilar ⟨rot5, Ocs.std, Ocs.std, true⟩ 25 ∧ PlaneToPlane ⟨rot5, Ocs.std, Ocs.std, true⟩ ∧
+    V3.smul 25 Ocs.std.uz = V3.cross (OcsT.ax ⟨rot5, Ocs.std, Ocs.std, true⟩) (OcsT.ay ⟨rot5, Ocs.std, Ocs.std, true⟩) ∧
+    sqrt100 25 * sqrt100 25 = 25 ∧
+    Txt.transform sqrt100 ⟨rot5, Ocs.std, Ocs.std, true⟩ ⟨⟨1, 2, 3⟩, none, ⟨3 / 5, 4 / 5⟩, ⟨1, 0⟩, 2, 1, some 1⟩
+      = .ok ⟨⟨2, 18, 24⟩, some ⟨2, 18, 24⟩, ⟨-7 / 5, 24 / 5⟩, ⟨1, 0⟩, 10, 1, some 5⟩ := by decide +kernel
+-- text_law on the non-uniform branch (oblique recomputed): the hatch example frame, not uniform
+example : (Txt.transform (fun _ => 1) oHatch ⟨⟨1, 2, 3⟩, some ⟨2, 2, 3⟩, ⟨1, 0⟩, ⟨1, 0⟩, 2, 1, none⟩).toOption.map
+    (fun t' => newTilt.toWcs t'.insert) = some (apply mHatch (tilt.toWcs ⟨1, 2, 3⟩)) := by decide +kernel
+-- mtext_law: non-uniform scaling (2, 3, 4) of an MTEXT along x with character height 2 and width 10
+def sqrtM : Rat → Rat := fun x => if x = 4 then 2 else if x = 36 then 6 else if x = 1 then 1 else if x = 400 then 20 else 0
+example : MTxt.transform sqrtM Ocs.std scale234 ⟨⟨1, 2, 3⟩, ⟨1, 0, 0⟩, ⟨0, 0, 1⟩, 2, some 10⟩
+    = .ok ⟨⟨2, 6, 12⟩, ⟨2, 0, 0⟩, ⟨0, 0, 1⟩, 6, some 20⟩ := by decide +kernel
+
+-- rytz_axes_law: the conjugate half-diameters (6/5, 4/5), (-8/5, 3/5) of the ellipse with semi-axes 2 and 1 (parameter
+-- cos t = 3/5): all six square roots are rational, the construction returns the principal axes (2, 0), (0, 1), ratio 1/2
+def sqrtR : Rat → Rat := fun x =>
+  if x = 9 / 4 then 3 / 2 else if x = 1 then 1 else if x = 4 then 2 else if x = 81 / 25 then 9 / 5 else if x = 144 / 25 then 12 / 5 else 0
+example : TransformKernels.rytzS sqrtR ⟨6 / 5, 4 / 5, 0⟩ ⟨-8 / 5, 3 / 5, 0⟩ = .ok (⟨2, 0, 0⟩, ⟨0, 1, 0⟩, 1 / 2) ∧
+    TransformKernels.rytz_rad1 ⟨6 / 5, 4 / 5, 0⟩ ⟨-8 / 5, 3 / 5, 0⟩ = 9 / 4 ∧
+    TransformKernels.rytz_rad2 ⟨6 / 5, 4 / 5, 0⟩ ⟨-8 / 5, 3 / 5, 0⟩ (3 / 2) = 1 ∧
+    TransformKernels.rytz_rad3 ⟨6 / 5, 4 / 5, 0⟩ ⟨-8 / 5, 3 / 5, 0⟩ (3 / 2) 1 = 4 ∧
+    TransformKernels.rytz_rad5 ⟨6 / 5, 4 / 5, 0⟩ ⟨-8 / 5, 3 / 5, 0⟩ (3 / 2) 1 2 1 = 81 / 25 := by decide +kernel
+
+-- mline_law: the rotated, mirrored similarity of factor 5 multiplies the scale factor 3/2 by 5 (it stayed 3/2 before the fix)
+example : IsSimilarity (M44.mul mirrorX rot5) 25 ∧
+    MLine.transform sqrt100 (M44.mul mirrorX rot5) ⟨[⟨0, 0, 0⟩, ⟨4, 0, 0⟩], 3 / 2⟩ = ⟨[⟨7, 8, 9⟩, ⟨-5, -8, 9⟩], 15 / 2⟩ := by decide +kernel
+
+-- rytz_axes_law_space: the conjugate half-diameters (9/4, 16/3), (-3, 4) of the ellipse with semi-axes 20/3 and 15/4, placed in
+-- the tilted plane of `tilt`: the 3-D branch is taken, all eight square roots are rational, the principal axes come back
+def sqrtS : Rat → Rat := fun x =>
+  if x = 25 then 5 else if x = 15625 then 125 else if x = 1225 / 576 then 35 / 24 else if x = 15625 / 144 then 125 / 12
+  else if x = 400 / 9 then 20 / 3 else if x = 225 / 16 then 15 / 4 else if x = 49 / 9 then 7 / 3 else if x = 49 / 16 then 7 / 4 else 0
+example : ¬ Flat ⟨155/36, 59/18, -37/18⟩ ⟨5/3, -2/3, -14/3⟩ ∧
+    TransformKernels.rytzS sqrtS ⟨155/36, 59/18, -37/18⟩ ⟨5/3, -2/3, -14/3⟩ = .ok (⟨40/9, 20/9, -40/9⟩, ⟨-5/4, -5/2, -5/2⟩, 9 / 16) := by decide +kernel
+
+-- temp_transform_law: hypotheses met by a non-trivial history (rotation, mirror)
+example : AllAffine [rot5, mirrorX] ∧ M44.IsAffine rot5 := by decide +kernel
+-- ocs_compose: Ocs.negZ --rot5--> tilt --mirrorX--> Ocs.std
+example : (OcsT.mk mirrorX tilt Ocs.std true).old = (OcsT.mk rot5 Ocs.negZ tilt true).new := rfl
 
 end EzdxfVerif.Props.C12
